@@ -1,17 +1,25 @@
 //! Shared DML/transaction engine: generated histories run on TurDB and on the relational
-//! reference model (sqlm::dml), compared statement by statement. Serves C05/C06/C07/C09/C12.
-//! Each violation carries a `class`; every property reports only its own classes.
+//! reference model (sqlm::dml), compared statement by statement. Serves C05/C06/C09 (and the
+//! history generator is reused by the crash engine). Each violation carries a `class`; every
+//! property reports only its own classes.
+//!
+//! Signatures: `<prop>/<assertion>/<core>[/<traits>]`. `core` is what the oracle established at the
+//! failing statement (statement kind + a diagnosis of the difference, e.g. `delete_counts_deleted_rows`,
+//! `insert:null_replaced_by_default`, `insert_multi/primary_key:with_existing/rows_before_failing_row_persist`).
+//! `traits` are the features that SURVIVE minimisation of the case (statement list, rows of multi-row
+//! INSERTs, SET items, WHERE, column list, RETURNING, and the schema: PK, AUTO_INCREMENT, DEFAULT, NOT NULL,
+//! UNIQUE, CHECK, FK, indexes, columns), i.e. features the failure needs: `pk`, `index`, `in_txn`,
+//! `k=first|middle|last`, `after_delete`, `check:between`, ...
 use crate::report::Ctx;
 use crate::rng::{fnv, Rng};
-use crate::sqlm::cmp::bag_diff;
 use crate::sqlm::db::{is_panic, panic_tag, Db, Outcome, Scratch};
-use crate::sqlm::dml::{ColDef, FkAction, FkDef, MDb, Stmt, TableDef};
-use crate::sqlm::expr::{bin, col, BinOp, MErr, E};
-use crate::sqlm::gen::{gen_pred, gen_value, ExprOpts, ScopeCol, Ty, WORDS};
-use crate::sqlm::val::{rows_json, Row, V};
+use crate::sqlm::dml::{check_form, check_truth, ColDef, FkAction, FkDef, MDb, Stmt, TableDef};
+use crate::sqlm::expr::{bin, col, shrink_expr, BinOp, MErr, E};
+use crate::sqlm::gen::{gen_pred, gen_value, ExprOpts, ScopeCol, Ty};
+use crate::sqlm::val::{row_key, Row, V};
 use crate::Args;
 use serde_json::{json, Value as J};
-use std::collections::{BTreeMap, BTreeSet};
+use std::collections::{BTreeMap, BTreeSet, HashMap};
 
 #[derive(Clone, Copy, Debug, PartialEq, Eq)]
 pub enum Focus {
@@ -29,13 +37,19 @@ pub enum Focus {
 
 #[derive(Clone, Debug)]
 pub struct Viol {
-    /// dml_result | state | count_star | error_atomicity | rollback | constraint | autoinc | panic | setup
+    /// dml_result | state | count_star | error_atomicity | rollback | constraint | panic | setup
     pub class: &'static str,
     pub assertion: String,
-    /// stable cause used in the signature
+    /// stable cause established at the failing statement (== `core`; kept for the `shrink` API)
     pub cause: String,
     pub stmt_index: usize,
     pub detail: J,
+    /// diagnosis part of the signature; minimisation must preserve (class, assertion, core)
+    pub core: String,
+}
+
+fn viol(class: &'static str, assertion: &str, core: String, i: usize, detail: J) -> Viol {
+    Viol { class, assertion: assertion.into(), cause: core.clone(), stmt_index: i, detail, core }
 }
 
 pub fn err_class(e: &str) -> String {
@@ -43,6 +57,22 @@ pub fn err_class(e: &str) -> String {
 }
 
 // ---------------------------------------------------------------- generation
+
+/// features drawn per history (stratified generation: most histories are free of any given feature)
+#[derive(Clone, Debug, Default)]
+pub struct Feat {
+    /// 0 none; 1 non-negative DEFAULTs, exercised by omitting the column; 2 = 1 + explicit NULL into a
+    /// defaulted column; 3 = 1 + negative numeric DEFAULTs
+    pub defaults: u8,
+    /// 0 none; 1 text of 900..1100 bytes (TOAST threshold is 1000); 2 = 1 + ~5000 bytes (two chunks)
+    pub large: u8,
+    pub truncate: bool,
+    pub returning: bool,
+    pub collist: bool,
+    pub txn: bool,
+    pub key_updates: bool,
+    pub set_copy: bool,
+}
 
 pub struct Gen {
     pub rng: Rng,
@@ -52,27 +82,120 @@ pub struct Gen {
     pub open_sp: Vec<String>,
     pub in_txn: bool,
     pub next_idx: u32,
+    pub feat: Feat,
+    next_large: u32,
+    next_uniq: i64,
 }
 
 fn scope(def: &TableDef) -> Vec<ScopeCol> {
     def.cols.iter().map(|c| ScopeCol { tbl: None, name: c.name.clone(), ty: c.ty }).collect()
 }
 
+fn is_pk_col(def: &TableDef, c: &ColDef) -> bool {
+    def.pk.iter().any(|p| p.eq_ignore_ascii_case(&c.name))
+}
+
+/// which constraint a generated row / assignment is meant to violate
+#[derive(Clone, Copy, Debug, PartialEq, Eq)]
+enum Bad {
+    Pk,
+    Unique(usize),
+    NotNull(usize),
+    Check(usize),
+    Fk(usize),
+}
+
+pub fn is_large(v: &V) -> bool {
+    matches!(v, V::Text(s) if s.len() >= 900)
+}
+
 impl Gen {
+    pub fn new(seed: u64, focus: Focus) -> Gen {
+        let mut rng = Rng::new(seed);
+        let heavy = matches!(focus, Focus::Constraints | Focus::Failing);
+        let d = rng.below(100);
+        let feat = Feat {
+            defaults: if d < 58 {
+                0
+            } else if d < 84 {
+                1
+            } else if d < 92 {
+                2
+            } else {
+                3
+            },
+            large: if heavy {
+                if rng.chance(1, 8) {
+                    1
+                } else {
+                    0
+                }
+            } else {
+                match rng.below(8) {
+                    0 | 1 => 1,
+                    2 => 2,
+                    _ => 0,
+                }
+            },
+            truncate: rng.chance(1, 3),
+            returning: rng.chance(1, 3),
+            collist: rng.chance(1, 2),
+            txn: focus == Focus::Txn || rng.chance(1, 4),
+            key_updates: rng.chance(1, 2),
+            set_copy: rng.chance(1, 3),
+        };
+        Gen { rng, focus, tables: vec![], next_sp: 0, open_sp: vec![], in_txn: false, next_idx: 0, feat, next_large: 0, next_uniq: 100 }
+    }
+
+    fn gen_check(&mut self, cname: &str) -> E {
+        let lo = self.rng.range(-3, 3);
+        let c = || col(cname);
+        let l = |x: i64| E::Lit(V::Int(x));
+        let r = self.rng.below(100);
+        if r < 45 {
+            bin(*self.rng.pick(&[BinOp::Ge, BinOp::Gt]), c(), l(lo))
+        } else if r < 60 {
+            bin(BinOp::And, bin(BinOp::Ge, c(), l(lo)), bin(BinOp::Le, c(), l(lo + 8)))
+        } else if r < 70 {
+            bin(BinOp::Or, bin(BinOp::Lt, c(), l(lo)), bin(BinOp::Gt, c(), l(lo + 2)))
+        } else if r < 80 {
+            E::Between(Box::new(c()), Box::new(l(lo)), Box::new(l(lo + 8)), false)
+        } else if r < 87 {
+            bin(BinOp::Ne, c(), l(lo + 2))
+        } else if r < 94 {
+            E::InList(Box::new(c()), (0..4).map(|k| l(lo + 2 * k)).collect(), false)
+        } else {
+            bin(BinOp::Le, l(lo), c())
+        }
+    }
+
+    fn gen_default(&mut self, ty: Ty, negative: bool) -> V {
+        match ty {
+            Ty::Int => V::Int(if negative { self.rng.range(-9, -1) } else { self.rng.range(0, 12) }),
+            Ty::Float => V::Float(if negative { -(self.rng.range(1, 40) as f64) / 4.0 } else { self.rng.range(0, 40) as f64 / 4.0 }),
+            Ty::Text => V::Text(self.rng.pick(&["a", "ab", "abc", "dflt", "zz"]).to_string()),
+            Ty::Bool => V::Bool(self.rng.chance(1, 2)),
+        }
+    }
+
     pub fn gen_schema(&mut self) -> Vec<Stmt> {
+        let heavy = matches!(self.focus, Focus::Constraints | Focus::Failing);
         let nt = match self.focus {
             Focus::Constraints => self.rng.usize(2, 3),
+            Focus::Failing => 1,
             _ => self.rng.usize(1, 2),
         };
         let mut out = vec![];
+        let mut neg_default_used = false;
         for ti in 0..nt {
             let name = format!("t{}", ti);
             let mut cols = vec![];
             let with_pk = match self.focus {
-                Focus::Dml => self.rng.chance(2, 3),
+                Focus::Dml | Focus::Txn => self.rng.chance(2, 3),
+                Focus::Constraints if ti == 0 => true,
                 _ => self.rng.chance(5, 6),
             };
-            let auto = self.focus == Focus::AutoInc || (with_pk && self.rng.chance(1, 6));
+            let auto = with_pk && (self.focus == Focus::AutoInc || self.rng.chance(1, 8));
             if with_pk {
                 cols.push(ColDef { name: "id".into(), ty: Ty::Int, not_null: false, unique: false, default: None, auto_inc: auto, check: None });
             }
@@ -85,45 +208,56 @@ impl Gen {
                     Ty::Text => 't',
                     Ty::Bool => 'b',
                 };
-                let heavy = matches!(self.focus, Focus::Constraints | Focus::Failing);
                 let not_null = heavy && self.rng.chance(1, 4);
                 let unique = heavy && ty != Ty::Bool && ty != Ty::Float && self.rng.chance(1, 4);
-                let default = if self.rng.chance(1, 5) { Some(gen_value(&mut self.rng, ty, 0)) } else { None };
                 let cname = format!("{}{}", letter, ci);
-                let check = if heavy && ty == Ty::Int && self.rng.chance(1, 3) {
-                    let lo = self.rng.range(-3, 3);
-                    Some(match self.rng.below(3) {
-                        0 => bin(BinOp::Ge, col(&cname), E::Lit(V::Int(lo))),
-                        1 => E::Between(Box::new(col(&cname)), Box::new(E::Lit(V::Int(lo))), Box::new(E::Lit(V::Int(lo + 8))), false),
-                        _ => bin(BinOp::Or, bin(BinOp::Lt, col(&cname), E::Lit(V::Int(lo))), bin(BinOp::Gt, col(&cname), E::Lit(V::Int(lo + 2)))),
-                    })
+                let check = if heavy && ty == Ty::Int && self.rng.chance(1, 3) { Some(self.gen_check(&cname)) } else { None };
+                let default = if self.feat.defaults > 0 && !unique && check.is_none() && self.rng.chance(1, 2) {
+                    let neg = self.feat.defaults == 3 && matches!(ty, Ty::Int | Ty::Float) && (!neg_default_used || self.rng.chance(1, 2));
+                    neg_default_used |= neg;
+                    Some(self.gen_default(ty, neg))
                 } else {
                     None
                 };
                 cols.push(ColDef { name: cname, ty, not_null, unique, default, auto_inc: false, check });
             }
             let mut def = TableDef { name: name.clone(), cols, pk: if with_pk { vec!["id".into()] } else { vec![] }, fks: vec![], indexes: vec![] };
-            // FK from t1 to t0.id
-            if ti > 0 && self.focus == Focus::Constraints && self.tables[0].pk.len() == 1 {
-                if let Some(c) = def.cols.iter().find(|c| c.ty == Ty::Int && c.name != "id" && c.check.is_none() && !c.unique) {
-                    let action = if self.rng.chance(1, 2) { FkAction::Cascade } else { FkAction::Restrict };
-                    def.fks.push(FkDef { col: c.name.clone(), ref_table: "t0".into(), ref_col: "id".into(), on_delete: action });
-                }
+            // FK from t1.. to t0.id
+            if ti > 0 && self.focus == Focus::Constraints {
+                let action = if self.rng.chance(1, 2) { FkAction::Cascade } else { FkAction::Restrict };
+                let cand = def.cols.iter().position(|c| c.ty == Ty::Int && c.name != "id" && c.check.is_none() && !c.unique);
+                let ci = match cand {
+                    Some(ci) => ci,
+                    None => {
+                        def.cols.push(ColDef { name: format!("i{}", def.cols.len()), ty: Ty::Int, not_null: false, unique: false, default: None, auto_inc: false, check: None });
+                        def.cols.len() - 1
+                    }
+                };
+                def.cols[ci].default = None;
+                def.fks.push(FkDef { col: def.cols[ci].name.clone(), ref_table: "t0".into(), ref_col: "id".into(), on_delete: action });
             }
             self.tables.push(def.clone());
             out.push(Stmt::CreateTable(def));
         }
-        // secondary indexes
+        // secondary indexes (plain, occasionally UNIQUE or two-column)
         for ti in 0..self.tables.len() {
             if self.rng.chance(1, 2) {
                 let def = self.tables[ti].clone();
                 let cands: Vec<&ColDef> = def.cols.iter().filter(|c| c.name != "id" && c.ty != Ty::Bool).collect();
                 if !cands.is_empty() {
                     let c = *self.rng.pick(&cands);
+                    let mut cols = vec![c.name.clone()];
+                    if cands.len() > 1 && self.rng.chance(1, 5) {
+                        let c2 = *self.rng.pick(&cands);
+                        if c2.name != c.name {
+                            cols.push(c2.name.clone());
+                        }
+                    }
+                    let unique = c.ty != Ty::Float && def.fks.iter().all(|f| f.col != c.name) && self.rng.chance(1, 7);
                     let name = format!("ix{}", self.next_idx);
                     self.next_idx += 1;
-                    let s = Stmt::CreateIndex { name: name.clone(), table: def.name.clone(), cols: vec![c.name.clone()], unique: false };
-                    self.tables[ti].indexes.push((name, vec![c.name.clone()], false));
+                    let s = Stmt::CreateIndex { name: name.clone(), table: def.name.clone(), cols: cols.clone(), unique };
+                    self.tables[ti].indexes.push((name, cols, unique));
                     out.push(s);
                 }
             }
@@ -131,26 +265,409 @@ impl Gen {
         out
     }
 
-    fn lit_for(&mut self, c: &ColDef, existing: &[Row], ci: usize, want_dup: bool) -> E {
-        if want_dup && !existing.is_empty() {
-            let r = self.rng.pick(existing);
-            return E::Lit(r[ci].clone());
-        }
-        let null_pm = if c.not_null { 80 } else { 120 };
-        let v = match c.ty {
-            Ty::Int if c.name == "id" => V::Int(self.rng.range(1, 40)),
-            _ => gen_value(&mut self.rng, c.ty, null_pm),
+    fn large_text(&mut self) -> V {
+        let n = match self.rng.below(6) {
+            0 => 1000,
+            1 => 1001,
+            2 if self.feat.large == 2 => self.rng.usize(4900, 5100),
+            3 if self.feat.large == 2 => self.rng.usize(3990, 4010),
+            _ => self.rng.usize(900, 1100),
         };
-        E::Lit(v)
+        self.next_large += 1;
+        let mut s = format!("L{}-", self.next_large);
+        while s.len() < n {
+            s.push((b'a' + (s.len() % 7) as u8) as char);
+        }
+        V::Text(s)
+    }
+
+    fn plain_value(&mut self, c: &ColDef, null_pm: u64) -> V {
+        if c.ty == Ty::Text && self.feat.large > 0 && !c.unique && self.rng.chance(1, 4) {
+            return self.large_text();
+        }
+        gen_value(&mut self.rng, c.ty, null_pm)
+    }
+
+    fn value_for_check(&mut self, c: &ColDef, want_ok: bool) -> V {
+        let ch = c.check.as_ref().unwrap();
+        for _ in 0..40 {
+            let v = V::Int(self.rng.range(-8, 16));
+            let t = check_truth(ch, &c.name, &v);
+            if (t != Some(false)) == want_ok {
+                return v;
+            }
+        }
+        V::Int(if want_ok { 5 } else { -100 })
+    }
+
+    fn fresh_key(&mut self, live: &BTreeSet<String>, gone_keys: &[i64], taken: &BTreeSet<String>) -> i64 {
+        // re-insert of a deleted key
+        if !gone_keys.is_empty() && self.rng.chance(1, 3) {
+            let k = *self.rng.pick(gone_keys);
+            let key = V::Int(k).key(true);
+            if !live.contains(&key) && !taken.contains(&key) {
+                return k;
+            }
+        }
+        for _ in 0..20 {
+            let k = self.rng.range(1, 40);
+            let key = V::Int(k).key(true);
+            if !live.contains(&key) && !taken.contains(&key) {
+                return k;
+            }
+        }
+        self.next_uniq += 1;
+        self.next_uniq
+    }
+
+    fn fresh_unique(&mut self, c: &ColDef, live: &BTreeSet<String>, taken: &BTreeSet<String>) -> V {
+        for _ in 0..20 {
+            let v = match c.ty {
+                Ty::Int => {
+                    if c.check.is_some() {
+                        self.value_for_check(c, true)
+                    } else {
+                        V::Int(self.rng.range(-5, 60))
+                    }
+                }
+                _ => gen_value(&mut self.rng, c.ty, 0),
+            };
+            let key = v.key(true);
+            if !live.contains(&key) && !taken.contains(&key) {
+                return v;
+            }
+        }
+        self.next_uniq += 1;
+        match c.ty {
+            Ty::Text => V::Text(format!("u{}", self.next_uniq)),
+            _ => V::Int(self.next_uniq),
+        }
+    }
+
+    /// one row of literals for the columns `names`; `bad` makes exactly that constraint fail (if possible)
+    fn gen_row(&mut self, def: &TableDef, model: &MDb, names: &[String], bad: Option<Bad>, taken: &mut HashMap<usize, BTreeSet<String>>) -> Vec<E> {
+        let tk = def.name.to_lowercase();
+        let rows: Vec<Row> = model.st.tables.get(&tk).map(|x| x.1.clone()).unwrap_or_default();
+        let gone: Vec<Row> = model.st.gone.get(&tk).cloned().unwrap_or_default();
+        let mut out = vec![];
+        for n in names {
+            let ci = def.col_idx(n).unwrap();
+            let c = &def.cols[ci];
+            let live: BTreeSet<String> = rows.iter().filter(|r| !r[ci].is_null()).map(|r| r[ci].key(true)).collect();
+            let tak = taken.entry(ci).or_default().clone();
+            let fk = def.fks.iter().find(|f| f.col.eq_ignore_ascii_case(&c.name));
+            let mut v: V;
+            if c.auto_inc {
+                v = if self.rng.chance(1, 2) {
+                    V::Null
+                } else {
+                    let gk: Vec<i64> = vec![];
+                    V::Int(self.fresh_key(&live, &gk, &tak))
+                };
+            } else if is_pk_col(def, c) {
+                if bad == Some(Bad::Pk) && !rows.is_empty() {
+                    v = self.rng.pick(&rows)[ci].clone();
+                } else {
+                    let gk: Vec<i64> = gone.iter().filter_map(|r| if let V::Int(x) = r[ci] { Some(x) } else { None }).collect();
+                    v = V::Int(self.fresh_key(&live, &gk, &tak));
+                }
+            } else if let Some(fk) = fk {
+                let pk = fk.ref_table.to_lowercase();
+                let prows: Vec<Row> = model.st.tables.get(&pk).map(|x| x.1.clone()).unwrap_or_default();
+                let pgone: Vec<Row> = model.st.gone.get(&pk).cloned().unwrap_or_default();
+                let pi = model.st.tables.get(&pk).and_then(|x| x.0.col_idx(&fk.ref_col)).unwrap_or(0);
+                if bad == Some(Bad::Fk(ci)) {
+                    let plive: BTreeSet<String> = prows.iter().map(|r| r[pi].key(true)).collect();
+                    let dead: Vec<&Row> = pgone.iter().filter(|r| !plive.contains(&r[pi].key(true))).collect();
+                    v = if !dead.is_empty() && self.rng.chance(1, 2) { self.rng.pick(&dead)[pi].clone() } else { V::Int(self.rng.range(41, 60)) };
+                } else if prows.is_empty() || (!c.not_null && self.rng.chance(1, 4)) {
+                    v = if c.not_null { V::Int(self.rng.range(1, 40)) } else { V::Null };
+                } else {
+                    v = self.rng.pick(&prows)[pi].clone();
+                }
+            } else if c.unique {
+                let existing: Vec<&Row> = rows.iter().filter(|r| !r[ci].is_null()).collect();
+                if bad == Some(Bad::Unique(ci)) && !existing.is_empty() {
+                    v = self.rng.pick(&existing)[ci].clone();
+                } else if !c.not_null && self.rng.chance(1, 6) {
+                    v = V::Null;
+                } else {
+                    v = self.fresh_unique(c, &live, &tak);
+                }
+            } else {
+                v = self.plain_value(c, if c.not_null { 0 } else { 120 });
+            }
+            if bad == Some(Bad::NotNull(ci)) {
+                v = V::Null;
+            } else if c.not_null && v.is_null() && !c.auto_inc {
+                v = gen_value(&mut self.rng, c.ty, 0);
+            }
+            if c.check.is_some() && !c.unique {
+                if bad == Some(Bad::Check(ci)) {
+                    v = self.value_for_check(c, false);
+                } else if !v.is_null() && check_truth(c.check.as_ref().unwrap(), &c.name, &v) == Some(false) {
+                    v = self.value_for_check(c, true);
+                }
+            } else if c.check.is_some() && bad == Some(Bad::Check(ci)) {
+                v = self.value_for_check(c, false);
+            }
+            // explicit NULL into a column that has a DEFAULT: only in its own stratum
+            if c.default.is_some() && bad != Some(Bad::NotNull(ci)) {
+                if self.feat.defaults == 2 && self.rng.chance(1, 3) {
+                    v = V::Null;
+                } else if self.feat.defaults != 2 && v.is_null() {
+                    v = gen_value(&mut self.rng, c.ty, 0);
+                }
+            }
+            if !v.is_null() {
+                taken.entry(ci).or_default().insert(v.key(true));
+            }
+            out.push(E::Lit(v));
+        }
+        out
+    }
+
+    /// a constraint of `def` that a row can be made to violate
+    fn pick_bad(&mut self, def: &TableDef, names: &[String], has_rows: bool) -> Option<Bad> {
+        let mut c = vec![];
+        for n in names {
+            let ci = def.col_idx(n).unwrap();
+            let cd = &def.cols[ci];
+            if is_pk_col(def, cd) && !cd.auto_inc && has_rows {
+                c.push(Bad::Pk);
+            }
+            if cd.unique && has_rows {
+                c.push(Bad::Unique(ci));
+            }
+            if cd.not_null && !cd.auto_inc {
+                c.push(Bad::NotNull(ci));
+            }
+            if cd.check.is_some() {
+                c.push(Bad::Check(ci));
+            }
+            if def.fks.iter().any(|f| f.col.eq_ignore_ascii_case(&cd.name)) {
+                c.push(Bad::Fk(ci));
+            }
+        }
+        if c.is_empty() {
+            None
+        } else {
+            Some(*self.rng.pick(&c))
+        }
+    }
+
+    fn gen_where(&mut self, def: &TableDef, rows: &[Row], gone: &[Row]) -> Option<E> {
+        let r = self.rng.below(100);
+        if r < 13 {
+            return None;
+        }
+        let pick_row = |g: &mut Gen| -> Option<Row> {
+            let k = g.rng.below(100);
+            if k < 45 && !rows.is_empty() {
+                Some(g.rng.pick(rows).clone())
+            } else if k < 82 && !gone.is_empty() {
+                Some(g.rng.pick(gone).clone())
+            } else if !rows.is_empty() && k < 90 {
+                Some(g.rng.pick(rows).clone())
+            } else {
+                None
+            }
+        };
+        if def.pk.len() == 1 && r < 55 {
+            // point predicate on the key: live, already deleted, or never present
+            let ci = def.col_idx(&def.pk[0]).unwrap();
+            let v = match pick_row(self) {
+                Some(row) => row[ci].clone(),
+                None => V::Int(self.rng.range(1, 45)),
+            };
+            return Some(bin(BinOp::Eq, col(&def.pk[0]), E::Lit(v)));
+        }
+        if r < 55 {
+            // no PK: equality on a value of a live / deleted row
+            if let Some(row) = pick_row(self) {
+                let cands: Vec<usize> = (0..def.cols.len()).filter(|i| matches!(def.cols[*i].ty, Ty::Int | Ty::Text) && !row[*i].is_null() && !is_large(&row[*i])).collect();
+                if !cands.is_empty() {
+                    let ci = *self.rng.pick(&cands);
+                    return Some(bin(BinOp::Eq, col(&def.cols[ci].name), E::Lit(row[ci].clone())));
+                }
+            }
+        }
+        let ints: Vec<&ColDef> = def.cols.iter().filter(|c| c.ty == Ty::Int).collect();
+        if r < 75 && !ints.is_empty() {
+            let c = *self.rng.pick(&ints);
+            let v = if c.name == "id" { self.rng.range(1, 40) } else { self.rng.range(-5, 12) };
+            let op = *self.rng.pick(&[BinOp::Ge, BinOp::Lt, BinOp::Gt, BinOp::Le, BinOp::Ne]);
+            return Some(bin(op, col(&c.name), E::Lit(V::Int(v))));
+        }
+        if r < 83 {
+            let c = self.rng.pick(&def.cols).clone();
+            return Some(E::IsNull(Box::new(col(&c.name)), self.rng.chance(1, 2)));
+        }
+        let sc = scope(def);
+        let opts = ExprOpts { not: true, in_list: true, between: true, like: false, is_null: true, arith: false, case: false, null_literals: false, int_float_mix: false, funcs: false };
+        let d = self.rng.below(2) as u32;
+        Some(gen_pred(&mut self.rng, &sc, d, &opts))
+    }
+
+    fn gen_insert(&mut self, def: &TableDef, model: &MDb, want_fail: bool) -> Stmt {
+        let tk = def.name.to_lowercase();
+        let has_rows = model.st.tables.get(&tk).map(|x| !x.1.is_empty()).unwrap_or(false);
+        let nrows = if self.rng.chance(1, 3) || (want_fail && self.rng.chance(1, 2)) { self.rng.usize(2, 5) } else { 1 };
+        let has_ai = def.cols.iter().any(|c| c.auto_inc);
+        let has_default = def.cols.iter().any(|c| c.default.is_some());
+        let use_cols = (self.feat.collist && self.rng.chance(1, 2)) || (has_default && self.rng.chance(2, 3)) || (has_ai && self.rng.chance(2, 3));
+        let names: Vec<String> = if use_cols {
+            let mut v = vec![];
+            for c in &def.cols {
+                let keep = if c.auto_inc {
+                    self.rng.chance(1, 4)
+                } else if is_pk_col(def, c) || (c.not_null && c.default.is_none()) {
+                    true
+                } else if c.default.is_some() {
+                    self.rng.chance(1, 2)
+                } else {
+                    self.rng.chance(3, 4)
+                };
+                if keep {
+                    v.push(c.name.clone());
+                }
+            }
+            if v.is_empty() {
+                v = def.col_names();
+            }
+            v
+        } else {
+            def.col_names()
+        };
+        let fail_at = if want_fail { Some(self.rng.below(nrows as u64) as usize) } else { None };
+        let bad = if want_fail { self.pick_bad(def, &names, has_rows || nrows > 1) } else { None };
+        let mut taken: HashMap<usize, BTreeSet<String>> = HashMap::new();
+        let mut out: Vec<Vec<E>> = vec![];
+        // explicit and generated AUTO_INCREMENT values are not mixed inside one statement
+        let ai_mode_null = self.rng.chance(1, 2);
+        for ri in 0..nrows {
+            let b = if fail_at == Some(ri) { bad } else { None };
+            let mut row = self.gen_row(def, model, &names, b, &mut taken);
+            // duplicate of an earlier row of the same statement
+            if fail_at == Some(ri) && ri > 0 && matches!(b, Some(Bad::Pk) | Some(Bad::Unique(_))) && self.rng.chance(1, 2) {
+                let ci = match b {
+                    Some(Bad::Unique(ci)) => ci,
+                    _ => def.col_idx(&def.pk[0]).unwrap(),
+                };
+                if let Some(p) = names.iter().position(|n| def.col_idx(n) == Some(ci)) {
+                    let prev = out[self.rng.below(ri as u64) as usize][p].clone();
+                    if !matches!(prev, E::Lit(V::Null)) {
+                        row[p] = prev;
+                    }
+                }
+            }
+            for (p, n) in names.iter().enumerate() {
+                let c = &def.cols[def.col_idx(n).unwrap()];
+                if c.auto_inc {
+                    if ai_mode_null {
+                        row[p] = E::Lit(V::Null);
+                    } else if matches!(row[p], E::Lit(V::Null)) {
+                        let live: BTreeSet<String> = model.st.tables.get(&tk).map(|x| x.1.iter().map(|r| r[def.col_idx(n).unwrap()].key(true)).collect()).unwrap_or_default();
+                        let tak = taken.entry(def.col_idx(n).unwrap()).or_default().clone();
+                        let k = self.fresh_key(&live, &[], &tak);
+                        taken.entry(def.col_idx(n).unwrap()).or_default().insert(V::Int(k).key(true));
+                        row[p] = E::Lit(V::Int(k));
+                    }
+                }
+            }
+            out.push(row);
+        }
+        Stmt::Insert { table: def.name.clone(), cols: if use_cols { Some(names) } else { None }, rows: out, returning: self.feat.returning && self.rng.chance(1, 3) }
+    }
+
+    fn gen_update(&mut self, def: &TableDef, model: &MDb, want_fail: bool) -> Stmt {
+        let tk = def.name.to_lowercase();
+        let rows: Vec<Row> = model.st.tables.get(&tk).map(|x| x.1.clone()).unwrap_or_default();
+        let gone: Vec<Row> = model.st.gone.get(&tk).cloned().unwrap_or_default();
+        let mut where_ = self.gen_where(def, &rows, &gone);
+        let returning = self.feat.returning && self.rng.chance(1, 3);
+        let settable: Vec<usize> = (0..def.cols.len()).filter(|i| !def.cols[*i].auto_inc && (self.feat.key_updates || !is_pk_col(def, &def.cols[*i]))).collect();
+        if settable.is_empty() {
+            return Stmt::Delete { table: def.name.clone(), where_, returning };
+        }
+        // multi-row UPDATE in which only some rows violate a constraint
+        if want_fail && self.rng.chance(1, 2) {
+            let mut opts: Vec<(String, E)> = vec![];
+            for &ci in &settable {
+                let c = &def.cols[ci];
+                if (c.unique || is_pk_col(def, c)) && !rows.is_empty() {
+                    let v = self.rng.pick(&rows)[ci].clone();
+                    if !v.is_null() {
+                        opts.push((c.name.clone(), E::Lit(v)));
+                    }
+                }
+                if c.check.is_some() || (c.ty == Ty::Int && (c.unique || is_pk_col(def, c))) || def.fks.iter().any(|f| f.col == c.name) {
+                    let k = *self.rng.pick(&[1i64, 2, 3, 5, -1, -2, -4]);
+                    opts.push((c.name.clone(), bin(BinOp::Add, col(&c.name), E::Lit(V::Int(k)))));
+                }
+                if c.not_null {
+                    if let Some(o) = def.cols.iter().find(|o| o.ty == c.ty && !o.not_null && o.name != c.name && !o.auto_inc && !is_pk_col(def, o)) {
+                        opts.push((c.name.clone(), col(&o.name)));
+                    }
+                }
+            }
+            if !opts.is_empty() {
+                let s = self.rng.pick(&opts).clone();
+                if self.rng.chance(2, 3) {
+                    where_ = if self.rng.chance(1, 2) { None } else { where_.filter(|w| !matches!(w, E::Bin(BinOp::Eq, ..))) };
+                }
+                return Stmt::Update { table: def.name.clone(), sets: vec![s], where_, returning };
+            }
+        }
+        let ns = self.rng.usize(1, 2.min(settable.len()));
+        let mut sets = vec![];
+        let mut used = BTreeSet::new();
+        let names = def.col_names();
+        for _ in 0..ns {
+            let ci = *self.rng.pick(&settable);
+            if !used.insert(ci) {
+                continue;
+            }
+            let c = def.cols[ci].clone();
+            let r = self.rng.below(100);
+            let e = if c.ty == Ty::Int && r < 25 && !c.unique {
+                bin(BinOp::Add, col(&c.name), E::Lit(V::Int(self.rng.range(1, 3))))
+            } else if c.ty == Ty::Int && is_pk_col(def, &c) && r < 45 {
+                bin(BinOp::Add, col(&c.name), E::Lit(V::Int(*self.rng.pick(&[1i64, 1, 50, 100]))))
+            } else if self.feat.set_copy && r < 40 && def.cols.iter().any(|o| o.ty == c.ty && o.name != c.name) {
+                let os: Vec<&ColDef> = def.cols.iter().filter(|o| o.ty == c.ty && o.name != c.name).collect();
+                col(&self.rng.pick(&os).name)
+            } else {
+                let bad = if want_fail { self.pick_bad(def, &[c.name.clone()], !rows.is_empty()) } else { None };
+                let mut taken = HashMap::new();
+                let one = self.gen_row(def, model, &names[ci..ci + 1].to_vec(), bad, &mut taken);
+                one[0].clone()
+            };
+            sets.push((c.name.clone(), e));
+        }
+        // a literal assigned to a key column makes sense for a single row only
+        if sets.iter().any(|(n, e)| matches!(e, E::Lit(_)) && { let c = &def.cols[def.col_idx(n).unwrap()]; c.unique || is_pk_col(def, c) }) && !want_fail && def.pk.len() == 1 && !rows.is_empty() && self.rng.chance(3, 4) {
+            let ci = def.col_idx(&def.pk[0]).unwrap();
+            where_ = Some(bin(BinOp::Eq, col(&def.pk[0]), E::Lit(self.rng.pick(&rows)[ci].clone())));
+        }
+        Stmt::Update { table: def.name.clone(), sets, where_, returning }
     }
 
     pub fn gen_stmt(&mut self, model: &MDb) -> Stmt {
         let ti = self.rng.below(self.tables.len() as u64) as usize;
         let def = self.tables[ti].clone();
-        let rows: Vec<Row> = model.st.tables.get(&def.name.to_lowercase()).map(|x| x.1.clone()).unwrap_or_default();
+        let tk = def.name.to_lowercase();
+        let rows: Vec<Row> = model.st.tables.get(&tk).map(|x| x.1.clone()).unwrap_or_default();
+        let gone: Vec<Row> = model.st.gone.get(&tk).cloned().unwrap_or_default();
         let r = self.rng.below(100);
         // transaction control
-        let txn_w = if self.focus == Focus::Txn { 30 } else { 6 };
+        let txn_w = if self.focus == Focus::Txn {
+            30
+        } else if self.feat.txn {
+            8
+        } else {
+            0
+        };
         if r < txn_w {
             if !self.in_txn {
                 self.in_txn = true;
@@ -179,136 +696,529 @@ impl Gen {
             self.open_sp.clear();
             return if k < 9 { Stmt::Rollback } else { Stmt::Commit };
         }
-        let want_fail = matches!(self.focus, Focus::Failing | Focus::Constraints) && self.rng.chance(1, 3);
-        if r < 55 {
-            // INSERT (single or multi-row), optional column list, optional RETURNING
-            let nrows = if self.rng.chance(1, 3) { self.rng.usize(2, 5) } else { 1 };
-            let fail_at = if want_fail { Some(self.rng.below(nrows as u64) as usize) } else { None };
-            let use_cols = self.rng.chance(1, 3);
-            let names: Vec<String> = if use_cols {
-                let mut v: Vec<String> = def.cols.iter().filter(|c| c.name == "id" && !c.auto_inc || self.rng.chance(3, 4)).map(|c| c.name.clone()).collect();
-                if v.is_empty() {
-                    v = def.col_names();
-                }
-                v
-            } else {
-                def.col_names()
-            };
-            let mut out = vec![];
-            for ri in 0..nrows {
-                let mut row = vec![];
-                for n in &names {
-                    let ci = def.col_idx(n).unwrap();
-                    let c = &def.cols[ci];
-                    let dup = fail_at == Some(ri) && (c.unique || (c.name == "id")) && self.rng.chance(2, 3);
-                    let mut e = self.lit_for(c, &rows, ci, dup);
-                    if c.auto_inc && self.rng.chance(2, 3) {
-                        e = E::Lit(V::Null);
-                    }
-                    if fail_at == Some(ri) && c.not_null && self.rng.chance(1, 2) {
-                        e = E::Lit(V::Null);
-                    }
-                    row.push(e);
-                }
-                out.push(row);
-            }
-            return Stmt::Insert { table: def.name.clone(), cols: if use_cols { Some(names) } else { None }, rows: out, returning: self.rng.chance(1, 5) };
+        let heavy = matches!(self.focus, Focus::Failing | Focus::Constraints);
+        let want_fail = heavy && self.rng.chance(if self.focus == Focus::Failing { 2 } else { 1 }, 5);
+        // keep tables populated: an empty table gets an INSERT most of the time
+        let ins_w = if rows.len() < 3 { 70 } else if rows.len() > 25 { 30 } else { 48 };
+        if r < ins_w {
+            return self.gen_insert(&def, model, want_fail);
         }
-        let sc = scope(&def);
-        let opts = ExprOpts { not: true, in_list: true, between: true, like: false, is_null: true, arith: false, case: false, null_literals: false, int_float_mix: false, funcs: false };
-        let where_ = if self.rng.chance(1, 8) {
-            None
-        } else if def.pk.len() == 1 && self.rng.chance(1, 2) {
-            // point predicate on the key (existing, deleted or never present)
-            Some(bin(BinOp::Eq, col("id"), E::Lit(V::Int(self.rng.range(1, 40)))))
-        } else {
-            let d = self.rng.below(3) as u32;
-            Some(gen_pred(&mut self.rng, &sc, d, &opts))
-        };
-        if r < 78 {
-            // UPDATE
-            let settable: Vec<&ColDef> = def.cols.iter().filter(|c| !c.auto_inc).collect();
-            let ns = self.rng.usize(1, 2.min(settable.len()));
-            let mut sets = vec![];
-            let mut used = BTreeSet::new();
-            for _ in 0..ns {
-                let c = *self.rng.pick(&settable);
-                if !used.insert(c.name.clone()) {
-                    continue;
-                }
-                let ci = def.col_idx(&c.name).unwrap();
-                let e = if c.ty == Ty::Int && c.name != "id" && self.rng.chance(1, 3) {
-                    bin(BinOp::Add, col(&c.name), E::Lit(V::Int(self.rng.range(1, 3))))
-                } else {
-                    self.lit_for(c, &rows, ci, want_fail && (c.unique || c.name == "id"))
-                };
-                sets.push((c.name.clone(), e));
-            }
-            return Stmt::Update { table: def.name.clone(), sets, where_, returning: self.rng.chance(1, 6) };
+        if r < ins_w + (100 - ins_w) * 5 / 10 {
+            return self.gen_update(&def, model, want_fail);
         }
-        if r < 96 {
-            return Stmt::Delete { table: def.name.clone(), where_, returning: self.rng.chance(1, 6) };
+        if r < 97 || !self.feat.truncate || (self.in_txn && self.focus != Focus::Txn) {
+            let where_ = self.gen_where(&def, &rows, &gone);
+            return Stmt::Delete { table: def.name.clone(), where_, returning: self.feat.returning && self.rng.chance(1, 3) };
         }
         Stmt::Truncate(def.name.clone())
     }
 }
 
-// ---------------------------------------------------------------- execution
-
-fn dump(db: &mut Db, t: &str) -> Result<Vec<Row>, String> {
-    db.query(&format!("SELECT * FROM {}", t))
-}
-
-/// compare the full observable state; returns a violation on the first difference
-fn compare_state(db: &mut Db, model: &MDb, i: usize, after: &Stmt, assertion: &str, class: &'static str) -> Option<Viol> {
-    for (k, (def, rows)) in &model.st.tables {
-        let got = match dump(db, &def.name) {
-            Ok(g) => g,
-            Err(e) => {
-                let cause = if is_panic(&e) { format!("scan_panic/{}", panic_tag(&e)) } else { format!("scan_error:{}", err_class(&e)) };
-                return Some(Viol { class: if is_panic(&e) { "panic" } else { class }, assertion: assertion.into(), cause, stmt_index: i, detail: json!({"table": k, "error": e}) });
-            }
-        };
-        if let Some(d) = bag_diff(&got, rows) {
-            let traits = format!("{}{}{}", if def.pk.is_empty() { "nopk" } else { "pk" }, if def.indexes.is_empty() { "" } else { "+index" }, if model.in_txn() { "+in_txn" } else { "" });
-            return Some(Viol { class, assertion: assertion.into(), cause: format!("table_differs_after_{}/{}", after.kind(), traits), stmt_index: i, detail: json!({"table": k, "diff": d, "got": rows_json(&got, 10), "want": rows_json(rows, 10)}) });
-        }
-        // COUNT(*) == visible rows
-        match db.query(&format!("SELECT COUNT(*) FROM {}", def.name)) {
-            Ok(r) => {
-                let n = r.first().and_then(|r| r.first()).and_then(|v| v.as_f64()).unwrap_or(-1.0) as i64;
-                if n != rows.len() as i64 {
-                    return Some(Viol { class: "count_star", assertion: "count_star_equals_visible_rows".into(), cause: format!("count_star_after_{}{}", after.kind(), if model.in_txn() { "/in_txn" } else { "" }), stmt_index: i, detail: json!({"table": k, "count_star": n, "visible_rows": rows.len()}) });
+pub fn gen_history(seed: u64, focus: Focus, max_stmts: usize) -> Vec<Stmt> {
+    let mut g = Gen::new(seed, focus);
+    let mut stmts = g.gen_schema();
+    let mut model = MDb::default();
+    for s in &stmts {
+        let _ = model.apply(s);
+    }
+    let n = g.rng.usize(max_stmts / 3, max_stmts);
+    let mut unsupported = 0;
+    for _ in 0..n {
+        let s = g.gen_stmt(&model);
+        match model.apply(&s) {
+            Ok(_) | Err(MErr::Error(_)) => stmts.push(s),
+            Err(MErr::Unsupported(_)) => {
+                unsupported += 1;
+                if unsupported > 20 {
+                    break;
                 }
             }
-            Err(e) => {
-                return Some(Viol { class: if is_panic(&e) { "panic" } else { "count_star" }, assertion: "count_star_equals_visible_rows".into(), cause: format!("count_error:{}", err_class(&e)), stmt_index: i, detail: json!({"error": e}) });
+        }
+    }
+    if g.in_txn && g.rng.chance(1, 2) {
+        stmts.push(if g.rng.chance(1, 2) { Stmt::Commit } else { Stmt::Rollback });
+    }
+    stmts
+}
+
+// ---------------------------------------------------------------- observation + diagnosis
+
+fn short(v: &V) -> J {
+    match v {
+        V::Text(s) if s.len() > 40 => json!(format!("{}..[{} bytes]", &s[..12], s.len())),
+        other => other.to_json(),
+    }
+}
+
+fn rows_short(rows: &[Row], max: usize) -> J {
+    J::Array(rows.iter().take(max).map(|r| J::Array(r.iter().map(short).collect())).collect())
+}
+
+/// multiset difference a − b (by canonical row key)
+fn bag_minus(a: &[Row], b: &[Row]) -> Vec<Row> {
+    let mut m: HashMap<String, i64> = HashMap::new();
+    for r in b {
+        *m.entry(row_key(r, true)).or_insert(0) += 1;
+    }
+    let mut out = vec![];
+    for r in a {
+        let k = row_key(r, true);
+        match m.get_mut(&k) {
+            Some(c) if *c > 0 => *c -= 1,
+            _ => out.push(r.clone()),
+        }
+    }
+    out
+}
+
+fn neg_num(v: &V) -> bool {
+    match v {
+        V::Int(i) => *i < 0,
+        V::Float(f) => *f < 0.0,
+        _ => false,
+    }
+}
+
+/// pair each missing row with the closest extra row and name what differs
+fn classify_pairs(def: &TableDef, missing: &[Row], extra: &[Row]) -> BTreeSet<String> {
+    let mut tags = BTreeSet::new();
+    let mut pool: Vec<Row> = extra.to_vec();
+    for m in missing {
+        if pool.is_empty() {
+            break;
+        }
+        let dist = |e: &Row| (0..m.len().min(e.len())).filter(|i| m[*i].key(true) != e[*i].key(true)).count();
+        let (bi, _) = pool.iter().enumerate().min_by_key(|(_, e)| dist(e)).unwrap();
+        let e = pool.remove(bi);
+        if m.len() != e.len() {
+            tags.insert("row_width".into());
+            continue;
+        }
+        let diff: Vec<usize> = (0..m.len()).filter(|i| m[*i].key(true) != e[*i].key(true)).collect();
+        if diff.len() == m.len() && m.len() > 1 {
+            tags.insert("unrelated_rows".into());
+            continue;
+        }
+        for ci in diff {
+            let c = &def.cols[ci];
+            let (w, g) = (&m[ci], &e[ci]);
+            let dflt_eq = |x: &V| c.default.as_ref().map(|d| d.key(true) == x.key(true)).unwrap_or(false);
+            let t = if w.is_null() && !g.is_null() && dflt_eq(g) {
+                "null_replaced_by_default".to_string()
+            } else if g.is_null() && !w.is_null() && dflt_eq(w) {
+                if neg_num(w) { "negative_default_lost".to_string() } else { "default_not_applied".to_string() }
+            } else if c.auto_inc {
+                "autoinc_value".into()
+            } else if is_large(w) || is_large(g) {
+                "large_text_value".into()
+            } else if is_pk_col(def, c) {
+                "pk_value".into()
+            } else {
+                format!("{}_value", match c.ty {
+                    Ty::Int => "int",
+                    Ty::Float => "float",
+                    Ty::Text => "text",
+                    Ty::Bool => "bool",
+                })
+            };
+            tags.insert(t);
+        }
+    }
+    tags
+}
+
+/// statement kind used in signatures (single- and multi-row INSERT share one kind; the row position is a trait)
+fn kind0(s: &Stmt) -> &'static str {
+    match s {
+        Stmt::Insert { .. } => "insert",
+        other => other.kind(),
+    }
+}
+
+fn stmt_table(s: &Stmt) -> Option<&str> {
+    match s {
+        Stmt::CreateTable(d) => Some(&d.name),
+        Stmt::DropTable(t) | Stmt::Truncate(t) => Some(t),
+        Stmt::CreateIndex { table, .. } | Stmt::Insert { table, .. } | Stmt::Update { table, .. } | Stmt::Delete { table, .. } => Some(table),
+        _ => None,
+    }
+}
+
+/// rows of the graveyard that the statement's WHERE matches (what a scan that does not skip tombstones would see)
+fn dead_matches(before: &MDb, s: &Stmt) -> Vec<Row> {
+    let (table, where_) = match s {
+        Stmt::Update { table, where_, .. } | Stmt::Delete { table, where_, .. } => (table, where_),
+        _ => return vec![],
+    };
+    let k = table.to_lowercase();
+    let gone = before.st.gone.get(&k).cloned().unwrap_or_default();
+    if gone.is_empty() {
+        return vec![];
+    }
+    // evaluate the WHERE on a copy of the model that holds only the dead rows
+    let mut m = before.clone();
+    m.txn = None;
+    if let Some(t) = m.st.tables.get_mut(&k) {
+        t.0.fks.clear();
+        t.0.pk.clear();
+        t.0.indexes.clear();
+        for c in t.0.cols.iter_mut() {
+            c.unique = false;
+            c.not_null = false;
+            c.check = None;
+        }
+        t.1 = gone;
+    }
+    for (_, t) in m.st.tables.iter_mut() {
+        t.0.fks.clear();
+    }
+    let probe = Stmt::Delete { table: table.clone(), where_: where_.clone(), returning: true };
+    match m.apply(&probe) {
+        Ok(eff) => eff.returning.unwrap_or_default(),
+        Err(_) => vec![],
+    }
+}
+
+/// the dead rows as the UPDATE would rewrite them
+fn dead_updated(before: &MDb, s: &Stmt) -> Vec<Row> {
+    if let Stmt::Update { table, sets, where_, .. } = s {
+        let k = table.to_lowercase();
+        let dead = dead_matches(before, s);
+        if dead.is_empty() {
+            return vec![];
+        }
+        let mut m = before.clone();
+        m.txn = None;
+        for (_, t) in m.st.tables.iter_mut() {
+            t.0.fks.clear();
+        }
+        if let Some(t) = m.st.tables.get_mut(&k) {
+            t.0.pk.clear();
+            t.0.indexes.clear();
+            for c in t.0.cols.iter_mut() {
+                c.unique = false;
+                c.not_null = false;
+                c.check = None;
+            }
+            t.1 = dead;
+        }
+        let probe = Stmt::Update { table: table.clone(), sets: sets.clone(), where_: where_.clone(), returning: true };
+        if let Ok(eff) = m.apply(&probe) {
+            return eff.returning.unwrap_or_default();
+        }
+    }
+    vec![]
+}
+
+/// the table as it would look if literal SET items were applied first and the other SET expressions were then
+/// evaluated on the already modified row (a known wrong evaluation order; used to name the difference)
+fn set_order_emulation(before: &MDb, s: &Stmt) -> Option<Vec<Row>> {
+    if let Stmt::Update { table, sets, where_, .. } = s {
+        let (lits, exprs): (Vec<_>, Vec<_>) = sets.iter().cloned().partition(|(_, e)| matches!(e, E::Lit(_)));
+        if lits.is_empty() || exprs.is_empty() {
+            return None;
+        }
+        let tk = table.to_lowercase();
+        let mut m = before.clone();
+        m.txn = None;
+        for (_, t) in m.st.tables.iter_mut() {
+            t.0.fks.clear();
+            t.0.pk.clear();
+            t.0.indexes.clear();
+            for c in t.0.cols.iter_mut() {
+                c.unique = false;
+                c.not_null = false;
+                c.check = None;
             }
         }
+        // tag the matching rows through two passes: first pass = literals, second pass = expressions on the same rows
+        let rows = m.st.tables.get(&tk)?.1.clone();
+        let mut out = vec![];
+        for r in rows {
+            let mut one = m.clone();
+            one.st.tables.get_mut(&tk)?.1 = vec![r.clone()];
+            let hit = one.apply(&Stmt::Update { table: table.clone(), sets: lits.clone(), where_: where_.clone(), returning: false }).ok()?.rows_affected? == 1;
+            if hit {
+                one.apply(&Stmt::Update { table: table.clone(), sets: exprs.clone(), where_: None, returning: false }).ok()?;
+            }
+            out.push(one.st.tables[&tk].1[0].clone());
+        }
+        return Some(out);
     }
     None
 }
 
+struct Obs {
+    tables: BTreeMap<String, Result<Vec<Row>, String>>,
+    counts: BTreeMap<String, Result<i64, String>>,
+}
+
+fn observe(db: &mut Db, model: &MDb) -> Obs {
+    let mut o = Obs { tables: BTreeMap::new(), counts: BTreeMap::new() };
+    for (k, (def, _)) in &model.st.tables {
+        o.tables.insert(k.clone(), db.query(&format!("SELECT * FROM {}", def.name)));
+        let c = db.query(&format!("SELECT COUNT(*) FROM {}", def.name)).map(|r| r.first().and_then(|r| r.first()).and_then(|v| v.as_f64()).unwrap_or(-1.0) as i64);
+        o.counts.insert(k.clone(), c);
+    }
+    o
+}
+
+/// compare the observed state with the model; the first difference gives the primary violation,
+/// constraint violations of TurDB's own state are reported in addition (class `constraint`)
+fn judge_state(o: &Obs, model: &MDb, before: &MDb, i: usize, s: &Stmt, assertion: &str, class: &'static str, why: Option<&str>) -> Vec<Viol> {
+    let mut out = vec![];
+    let kind = kind0(s);
+    let txn = if model.in_txn() { "+in_txn" } else { "" };
+    let _ = txn;
+    for (k, (def, want)) in &model.st.tables {
+        let got = match &o.tables[k] {
+            Ok(g) => g,
+            Err(e) => {
+                let core = if is_panic(e) { format!("scan_panic/{}", panic_tag(e)) } else { format!("scan_error_after_{}:{}", kind, err_class(e)) };
+                out.push(viol(if is_panic(e) { "panic" } else { class }, assertion, core, i, json!({"table": k, "error": e, "sql": s.sql()})));
+                break;
+            }
+        };
+        let missing = bag_minus(want, got);
+        let extra = bag_minus(got, want);
+        if !missing.is_empty() || !extra.is_empty() {
+            let other = stmt_table(s).map(|t| !t.eq_ignore_ascii_case(&def.name)).unwrap_or(false);
+            let gone_before = before.st.gone.get(k).cloned().unwrap_or_default();
+            let mut a = assertion.to_string();
+            let mut core: String;
+            if class == "error_atomicity" {
+                // what did the failed statement leave behind?
+                let effect = match s {
+                    Stmt::Insert { table, cols, rows, returning } if missing.is_empty() => {
+                        let mut eff = "rows_persist".to_string();
+                        if let Some((kf, _)) = before.first_failing_row(s) {
+                            let prefix = Stmt::Insert { table: table.clone(), cols: cols.clone(), rows: rows[..kf].to_vec(), returning: *returning };
+                            let mut m = before.clone();
+                            if kf > 0 && m.apply(&prefix).is_ok() {
+                                let new = bag_minus(&m.st.tables[k].1, &before.st.tables[k].1);
+                                if bag_minus(&extra, &new).is_empty() && bag_minus(&new, &extra).is_empty() {
+                                    eff = "rows_before_failing_row_persist".into();
+                                }
+                            } else if kf == 0 {
+                                eff = "rows_after_failing_row_persist".into();
+                            }
+                        }
+                        eff
+                    }
+                    _ => {
+                        if missing.is_empty() {
+                            "rows_added".to_string()
+                        } else if extra.is_empty() {
+                            "rows_lost".to_string()
+                        } else if missing.len() == extra.len() {
+                            "rows_changed".to_string()
+                        } else {
+                            "rows_changed_and_count_differs".to_string()
+                        }
+                    }
+                };
+                core = format!("{}/{}/{}", kind, effect, why.unwrap_or("error").split(':').next().unwrap_or("error"));
+            } else if !extra.is_empty() && missing.is_empty() && bag_minus(&extra, &gone_before).is_empty() {
+                a = "no_resurrection".into();
+                core = format!("{}:deleted_rows_reappear", kind);
+            } else if !extra.is_empty() && missing.is_empty() && matches!(s, Stmt::Update { .. }) && !other && bag_minus(&extra, &dead_updated(before, s)).is_empty() {
+                a = "no_resurrection".into();
+                core = "update:rewrites_deleted_rows".into();
+            } else if !other && matches!(s, Stmt::Update { .. }) && set_order_emulation(before, s).map(|alt| bag_minus(&alt, got).is_empty() && bag_minus(got, &alt).is_empty()).unwrap_or(false) {
+                core = "update:set_expression_sees_values_assigned_by_the_same_statement".into();
+            } else if missing.len() == extra.len() {
+                let tags = classify_pairs(def, &missing, &extra);
+                core = format!("{}:{}", kind, tags.into_iter().collect::<Vec<_>>().join("+"));
+            } else if extra.is_empty() {
+                core = format!("{}:rows_missing", kind);
+            } else if missing.is_empty() {
+                core = format!("{}:rows_extra", kind);
+            } else {
+                core = format!("{}:rows_missing_and_extra", kind);
+            }
+            if other {
+                core.push_str(":in_other_table");
+            }
+            out.push(viol(class, &a, core, i, json!({"table": k, "sql": s.sql(), "got_rows": got.len(), "want_rows": want.len(), "missing": rows_short(&missing, 4), "extra": rows_short(&extra, 4), "got": rows_short(got, 8), "want": rows_short(want, 8)})));
+            break;
+        }
+        match &o.counts[k] {
+            Ok(n) => {
+                if *n != want.len() as i64 {
+                    let dir = if *n > want.len() as i64 { "over" } else { "under" };
+                    let core = if class == "error_atomicity" { format!("{}/count_star_{}/{}", kind, dir, why.unwrap_or("error").split(':').next().unwrap_or("error")) } else { format!("count_star_{}_after_{}", dir, kind) };
+                    let own = class == "error_atomicity" || class == "rollback";
+                    let core = if class == "rollback" { format!("count_star_{}_after_{}", dir, kind) } else { core };
+                    out.push(viol(if own { class } else { "count_star" }, if own { assertion } else { "count_star_equals_visible_rows" }, core, i, json!({"table": k, "sql": s.sql(), "count_star": n, "visible_rows": want.len()})));
+                    break;
+                }
+            }
+            Err(e) => {
+                out.push(viol(if is_panic(e) { "panic" } else { "count_star" }, "count_star_equals_visible_rows", format!("count_error_after_{}:{}", kind, err_class(e)), i, json!({"error": e})));
+                break;
+            }
+        }
+    }
+    // declared constraints evaluated on the state TurDB shows
+    let dumped: BTreeMap<String, Vec<Row>> = o.tables.iter().filter_map(|(k, r)| r.as_ref().ok().map(|r| (k.clone(), r.clone()))).collect();
+    if dumped.len() == o.tables.len() {
+        let v = model.state_violations(&dumped);
+        if !v.is_empty() {
+            let kinds: BTreeSet<String> = v.iter().map(|x| x.split(':').nth(1).unwrap_or("").to_string()).collect();
+            out.push(viol("constraint", "state_satisfies_constraints", format!("after_{}:{}", kind, kinds.into_iter().collect::<Vec<_>>().join("+")), i, json!({"sql": s.sql(), "violated": v})));
+        }
+    }
+    out
+}
+
 pub struct RunOut {
+    /// first violation (the history stops there)
     pub viol: Option<Viol>,
+    /// further violations established at the same statement (other sub-assertions)
+    pub extra: Vec<Viol>,
     pub executed: usize,
     pub dropped_unsupported: bool,
     pub kinds: BTreeMap<String, u64>,
+    /// coverage facts measured on the model while executing
+    pub cov: BTreeMap<String, u64>,
     pub failing_stmts: u64,
     pub rollbacks: u64,
 }
 
+fn bump(m: &mut BTreeMap<String, u64>, k: &str) {
+    *m.entry(k.to_string()).or_insert(0) += 1;
+}
+
+/// coverage facts of one statement, evaluated on the model state before it
+fn coverage(cov: &mut BTreeMap<String, u64>, before: &MDb, s: &Stmt, m: &Result<crate::sqlm::dml::Effect, MErr>) {
+    let tk = stmt_table(s).map(|t| t.to_lowercase()).unwrap_or_default();
+    let def = before.st.tables.get(&tk).map(|x| x.0.clone());
+    let live = before.st.tables.get(&tk).map(|x| x.1.len()).unwrap_or(0);
+    let has_gone = before.st.gone.get(&tk).map(|g| !g.is_empty()).unwrap_or(false);
+    if let Some(d) = &def {
+        if matches!(s, Stmt::Insert { .. } | Stmt::Update { .. } | Stmt::Delete { .. }) {
+            bump(cov, if d.pk.is_empty() { "dml_on_table_without_pk" } else { "dml_on_table_with_pk" });
+            if !d.indexes.is_empty() {
+                bump(cov, "dml_on_indexed_table");
+            }
+            if before.in_txn() {
+                bump(cov, "dml_inside_transaction");
+            }
+        }
+    }
+    let mut large = false;
+    let mut see = |e: &E| e.visit(&mut |x| if let E::Lit(v) = x { large |= is_large(v) });
+    match s {
+        Stmt::Insert { rows, .. } => rows.iter().flatten().for_each(|e| see(e)),
+        Stmt::Update { sets, .. } => sets.iter().for_each(|(_, e)| see(e)),
+        _ => {}
+    }
+    if large {
+        bump(cov, "statements_with_text_over_900_bytes");
+    }
+    match s {
+        Stmt::Delete { where_, .. } => {
+            if !dead_matches(before, s).is_empty() {
+                bump(cov, "delete_matching_already_deleted_rows");
+            }
+            if where_.is_none() && live > 0 {
+                bump(cov, "delete_all_rows");
+            }
+            if let Some(d) = &def {
+                let referenced = before.st.tables.values().any(|(c, rows)| c.fks.iter().any(|f| f.ref_table.eq_ignore_ascii_case(&d.name)) && !rows.is_empty());
+                if referenced && matches!(m, Ok(e) if e.rows_affected.unwrap_or(0) > 0) {
+                    bump(cov, "parent_delete_accepted_by_model");
+                }
+                if referenced && matches!(m, Err(MErr::Error(w)) if w.contains("restrict")) {
+                    bump(cov, "parent_delete_restricted_by_model");
+                }
+            }
+        }
+        Stmt::Update { sets, .. } => {
+            if !dead_matches(before, s).is_empty() {
+                bump(cov, "update_matching_already_deleted_rows");
+            }
+            if let Some(d) = &def {
+                if sets.iter().any(|(c, _)| d.pk.iter().any(|p| p.eq_ignore_ascii_case(c)) || d.col_idx(c).map(|i| d.cols[i].unique).unwrap_or(false)) {
+                    bump(cov, "update_of_key_column");
+                }
+                if sets.iter().any(|(c, _)| d.fks.iter().any(|f| f.col.eq_ignore_ascii_case(c))) {
+                    bump(cov, "update_of_fk_column");
+                }
+            }
+            if let (Err(MErr::Error(_)), Ok(n)) = (m, {
+                let mut mm = before.clone();
+                for (_, t) in mm.st.tables.iter_mut() {
+                    t.0.fks.clear();
+                    t.0.pk.clear();
+                    t.0.indexes.clear();
+                    for c in t.0.cols.iter_mut() {
+                        c.unique = false;
+                        c.not_null = false;
+                        c.check = None;
+                    }
+                }
+                mm.apply(s).map(|e| e.rows_affected.unwrap_or(0))
+            }) {
+                if n > 1 {
+                    bump(cov, "multi_row_update_rejected_by_model");
+                }
+            }
+        }
+        Stmt::Insert { rows, .. } => {
+            if has_gone && live == 0 {
+                bump(cov, "insert_into_emptied_table");
+            }
+            if let Some(d) = &def {
+                if d.pk.len() == 1 {
+                    let pi = d.col_idx(&d.pk[0]).unwrap();
+                    if let Ok(_) = m {
+                        let gk: BTreeSet<String> = before.st.gone.get(&tk).map(|g| g.iter().map(|r| r[pi].key(true)).collect()).unwrap_or_default();
+                        let mut mm = before.clone();
+                        if mm.apply(s).is_ok() {
+                            let new = bag_minus(&mm.st.tables[&tk].1, &before.st.tables[&tk].1);
+                            if new.iter().any(|r| gk.contains(&r[pi].key(true))) {
+                                bump(cov, "reinsert_of_deleted_key");
+                            }
+                        }
+                    }
+                }
+                for f in &d.fks {
+                    let ci = d.col_idx(&f.col).unwrap();
+                    let _ = ci;
+                }
+            }
+            if rows.len() > 1 {
+                if let Some((k, n)) = before.first_failing_row(s) {
+                    bump(cov, &format!("multi_row_insert_failing_at_{}", if k == 0 { "first" } else if k + 1 == n { "last" } else { "middle" }));
+                }
+            }
+        }
+        Stmt::Truncate(_) => bump(cov, "truncate"),
+        _ => {}
+    }
+}
+
 /// run a history on a fresh database; stops at the first violation
 pub fn run_history(scratch: &Scratch, tag: &str, stmts: &[Stmt]) -> RunOut {
-    let mut out = RunOut { viol: None, executed: 0, dropped_unsupported: false, kinds: BTreeMap::new(), failing_stmts: 0, rollbacks: 0 };
+    let mut out = RunOut { viol: None, extra: vec![], executed: 0, dropped_unsupported: false, kinds: BTreeMap::new(), cov: BTreeMap::new(), failing_stmts: 0, rollbacks: 0 };
     let mut db = match Db::create(&scratch.dir(tag)) {
         Ok(d) => d,
         Err(e) => {
-            out.viol = Some(Viol { class: "setup", assertion: "create_database".into(), cause: "create_failed".into(), stmt_index: 0, detail: json!({"error": e}) });
+            out.viol = Some(viol("setup", "create_database", "create_failed".into(), 0, json!({"error": e})));
             return out;
         }
     };
+    if std::env::var("TV_DML_SYNC").map(|v| v == "off").unwrap_or(false) {
+        let _ = db.exec("PRAGMA synchronous = OFF");
+    }
     let mut model = MDb::default();
+    let finish = |out: &mut RunOut, mut vs: Vec<Viol>| {
+        if !vs.is_empty() {
+            out.viol = Some(vs.remove(0));
+            out.extra = vs;
+        }
+    };
     for (i, s) in stmts.iter().enumerate() {
         let before = model.clone();
         let m = model.apply(s);
@@ -318,10 +1228,11 @@ pub fn run_history(scratch: &Scratch, tag: &str, stmts: &[Stmt]) -> RunOut {
         }
         out.executed = i + 1;
         *out.kinds.entry(s.kind().to_string()).or_insert(0) += 1;
+        coverage(&mut out.cov, &before, s, &m);
         let got = db.exec(&s.sql());
         if let Err(e) = &got {
             if is_panic(e) {
-                out.viol = Some(Viol { class: "panic", assertion: "no_panic".into(), cause: format!("{}/{}", s.kind(), panic_tag(e)), stmt_index: i, detail: json!({"sql": s.sql(), "panic": e}) });
+                out.viol = Some(viol("panic", "no_panic", format!("{}/{}", kind0(s), panic_tag(e)), i, json!({"sql": s.sql(), "panic": e})));
                 return out;
             }
         }
@@ -329,19 +1240,33 @@ pub fn run_history(scratch: &Scratch, tag: &str, stmts: &[Stmt]) -> RunOut {
             (Ok(eff), Ok(o)) => {
                 if let (Some(want), Outcome::Dml(n, ret)) = (eff.rows_affected, o) {
                     if !matches!(s, Stmt::Truncate(_)) && *n != want {
-                        out.viol = Some(Viol { class: "dml_result", assertion: "rows_affected".into(), cause: format!("{}_rows_affected", s.kind()), stmt_index: i, detail: json!({"sql": s.sql(), "got": n, "want": want}) });
+                        let dead = dead_matches(&before, s).len();
+                        let core = if *n > want && dead > 0 && *n == want + dead { format!("{}_counts_deleted_rows", kind0(s)) } else { format!("{}_rows_affected_{}", kind0(s), if *n > want { "over" } else { "under" }) };
+                        out.viol = Some(viol("dml_result", "rows_affected", core, i, json!({"sql": s.sql(), "got": n, "want": want, "deleted_rows_matching_where": dead})));
                         return out;
                     }
                     if let Some(wr) = &eff.returning {
                         match ret {
                             Some(gr) => {
-                                if let Some(d) = bag_diff(gr, wr) {
-                                    out.viol = Some(Viol { class: "dml_result", assertion: "returning".into(), cause: format!("{}_returning_differs", s.kind()), stmt_index: i, detail: json!({"sql": s.sql(), "diff": d}) });
+                                let missing = bag_minus(wr, gr);
+                                let extra = bag_minus(gr, wr);
+                                if !missing.is_empty() || !extra.is_empty() {
+                                    let tk = stmt_table(s).unwrap_or("").to_lowercase();
+                                    let def = before.st.tables[&tk].0.clone();
+                                    let dead = if matches!(s, Stmt::Update { .. }) { dead_updated(&before, s) } else { dead_matches(&before, s) };
+                                    let core = if missing.is_empty() && bag_minus(&extra, &dead).is_empty() {
+                                        format!("{}_returns_deleted_rows", kind0(s))
+                                    } else if missing.len() == extra.len() {
+                                        format!("{}_returning:{}", kind0(s), classify_pairs(&def, &missing, &extra).into_iter().collect::<Vec<_>>().join("+"))
+                                    } else {
+                                        format!("{}_returning:{}", kind0(s), if extra.is_empty() { "rows_missing" } else if missing.is_empty() { "rows_extra" } else { "rows_missing_and_extra" })
+                                    };
+                                    out.viol = Some(viol("dml_result", "returning", core, i, json!({"sql": s.sql(), "missing": rows_short(&missing, 4), "extra": rows_short(&extra, 4)})));
                                     return out;
                                 }
                             }
                             None => {
-                                out.viol = Some(Viol { class: "dml_result", assertion: "returning".into(), cause: format!("{}_returning_missing", s.kind()), stmt_index: i, detail: json!({"sql": s.sql()}) });
+                                out.viol = Some(viol("dml_result", "returning", format!("{}_returning_absent", kind0(s)), i, json!({"sql": s.sql()})));
                                 return out;
                             }
                         }
@@ -349,36 +1274,93 @@ pub fn run_history(scratch: &Scratch, tag: &str, stmts: &[Stmt]) -> RunOut {
                 }
                 if matches!(s, Stmt::Rollback | Stmt::RollbackTo(_)) {
                     out.rollbacks += 1;
-                    if let Some(v) = compare_state(&mut db, &model, i, s, "rollback_restores_state", "rollback") {
-                        out.viol = Some(v);
+                    let o = observe(&mut db, &model);
+                    let vs = judge_state(&o, &model, &before, i, s, "rollback_restores_state", "rollback", None);
+                    if !vs.is_empty() {
+                        finish(&mut out, vs);
                         return out;
                     }
                 } else if s.is_mutation() {
-                    if let Some(v) = compare_state(&mut db, &model, i, s, "state_matches_model", "state") {
-                        out.viol = Some(v);
+                    let o = observe(&mut db, &model);
+                    let vs = judge_state(&o, &model, &before, i, s, "state_matches_model", "state", None);
+                    if !vs.is_empty() {
+                        finish(&mut out, vs);
                         return out;
                     }
                 }
             }
             (Err(MErr::Error(why)), Err(_e)) => {
-                // both reject: the visible state must be exactly what it was
+                // both reject: the visible state must be exactly what it was (model.apply left the model untouched)
                 out.failing_stmts += 1;
-                model = before.clone();
-                // (model.apply already left the state untouched; restore txn bookkeeping too)
-                if let Some(mut v) = compare_state(&mut db, &model, i, s, "unchanged_after_error", "error_atomicity") {
-                    v.cause = format!("{}/{}", v.cause, why.replace("constraint:", ""));
-                    v.detail["failed_sql"] = json!(s.sql());
-                    out.viol = Some(v);
+                let why = why.replace("constraint:", "").replace(' ', "_");
+                let o = observe(&mut db, &model);
+                let vs = judge_state(&o, &model, &before, i, s, "unchanged_after_error", "error_atomicity", Some(&why));
+                if !vs.is_empty() {
+                    finish(&mut out, vs);
                     return out;
                 }
             }
             (Ok(_), Err(e)) => {
-                let class = if matches!(s, Stmt::Insert { .. } | Stmt::Update { .. } | Stmt::Delete { .. }) { "constraint" } else { "dml_result" };
-                out.viol = Some(Viol { class, assertion: "valid_statement_accepted".into(), cause: format!("{}_rejected:{}", s.kind(), err_class(e)), stmt_index: i, detail: json!({"sql": s.sql(), "error": e}) });
+                let dml = matches!(s, Stmt::Insert { .. } | Stmt::Update { .. } | Stmt::Delete { .. });
+                let class = if dml { "constraint" } else { "dml_result" };
+                // facts that tell apart the usual suspects
+                let mut core = format!("{}_rejected:{}", kind0(s), err_class(e));
+                if let Stmt::Update { table, sets, .. } = s {
+                    // would a row-at-a-time check see a duplicate that the final state does not have?
+                    let tk = table.to_lowercase();
+                    let (def, rows) = &before.st.tables[&tk];
+                    let keyed: Vec<usize> = sets.iter().filter_map(|(c, _)| def.col_idx(c)).filter(|i| def.cols[*i].unique || is_pk_col(def, &def.cols[*i])).collect();
+                    let after = &model.st.tables[&tk].1;
+                    let (mut own, mut others) = (false, false);
+                    if after.len() == rows.len() {
+                        for j in 0..rows.len() {
+                            if row_key(&after[j], true) == row_key(&rows[j], true) {
+                                continue;
+                            }
+                            for ci in &keyed {
+                                if after[j][*ci].is_null() {
+                                    continue;
+                                }
+                                let k = after[j][*ci].key(true);
+                                if rows[j][*ci].key(true) == k {
+                                    own = true;
+                                } else if rows.iter().enumerate().any(|(x, b)| x != j && b[*ci].key(true) == k) {
+                                    others = true;
+                                }
+                            }
+                        }
+                    }
+                    if others {
+                        core.push_str(":new_key_equals_another_rows_old_key");
+                    } else if own {
+                        core.push_str(":key_assigned_its_own_value");
+                    }
+                }
+                out.viol = Some(viol(class, "valid_statement_accepted", core, i, json!({"sql": s.sql(), "error": e})));
                 return out;
             }
             (Err(MErr::Error(why)), Ok(o)) => {
-                out.viol = Some(Viol { class: "constraint", assertion: "invalid_statement_rejected".into(), cause: format!("{}_accepted_despite_{}", s.kind(), why.replace("constraint:", "").replace(' ', "_")), stmt_index: i, detail: json!({"sql": s.sql(), "outcome": format!("{:?}", o).chars().take(200).collect::<String>()}) });
+                let mut why = why.replace("constraint:", "").replace(' ', "_");
+                if why.starts_with("check") {
+                    // which CHECK form was violated?
+                    let tk = stmt_table(s).unwrap_or("").to_lowercase();
+                    if let Some((def, _)) = before.st.tables.get(&tk) {
+                        let forms: BTreeSet<String> = def.cols.iter().filter_map(|c| c.check.as_ref()).map(check_form).collect();
+                        if forms.len() == 1 {
+                            why = format!("check:{}", forms.into_iter().next().unwrap());
+                        }
+                    }
+                }
+                let mut vs = vec![viol("constraint", "invalid_statement_rejected", format!("{}_accepted_despite_{}", kind0(s), why), i, json!({"sql": s.sql(), "outcome": format!("{:?}", o).chars().take(200).collect::<String>()}))];
+                // what does TurDB's state look like now? (the model kept the old state)
+                let ob = observe(&mut db, &model);
+                let dumped: BTreeMap<String, Vec<Row>> = ob.tables.iter().filter_map(|(k, r)| r.as_ref().ok().map(|r| (k.clone(), r.clone()))).collect();
+                let sv = model.state_violations(&dumped);
+                if !sv.is_empty() {
+                    let kinds: BTreeSet<String> = sv.iter().map(|x| x.split(':').nth(1).unwrap_or("").to_string()).collect();
+                    vs.push(viol("constraint", "state_satisfies_constraints", format!("after_{}:{}", kind0(s), kinds.into_iter().collect::<Vec<_>>().join("+")), i, json!({"sql": s.sql(), "violated": sv})));
+                }
+                finish(&mut out, vs);
                 return out;
             }
             (Err(MErr::Unsupported(_)), _) => unreachable!(),
@@ -387,63 +1369,478 @@ pub fn run_history(scratch: &Scratch, tag: &str, stmts: &[Stmt]) -> RunOut {
     out
 }
 
-pub fn gen_history(seed: u64, focus: Focus, max_stmts: usize) -> Vec<Stmt> {
-    let mut g = Gen { rng: Rng::new(seed), focus, tables: vec![], next_sp: 0, open_sp: vec![], in_txn: false, next_idx: 0 };
-    let mut stmts = g.gen_schema();
-    let mut model = MDb::default();
-    for s in &stmts {
-        let _ = model.apply(s);
-    }
-    let n = g.rng.usize(max_stmts / 3, max_stmts);
-    for _ in 0..n {
-        let s = g.gen_stmt(&model);
-        match model.apply(&s) {
-            Ok(_) | Err(MErr::Error(_)) => {
-                // keep generator bookkeeping in line with the model for failing txn-control statements
-                stmts.push(s);
-            }
-            Err(MErr::Unsupported(_)) => {}
-        }
-    }
-    if g.in_txn && g.rng.chance(1, 2) {
-        stmts.push(if g.rng.chance(1, 2) { Stmt::Commit } else { Stmt::Rollback });
-    }
-    stmts
+// ---------------------------------------------------------------- minimisation
+
+fn matches_target(o: &RunOut, t: &Viol) -> Option<Viol> {
+    o.viol.iter().chain(o.extra.iter()).find(|v| v.class == t.class && v.assertion == t.assertion && v.core == t.core).cloned()
 }
 
-/// ddmin over the statement list (schema statements are kept): same class+cause must still fire
-pub fn shrink(scratch: &Scratch, stmts: &[Stmt], class: &str, cause: &str) -> Vec<Stmt> {
-    let mut cur = stmts.to_vec();
-    let fires = |c: &[Stmt], n: &mut usize| -> bool {
-        *n += 1;
-        let o = run_history(scratch, &format!("shrink{}", *n % 4), c);
-        matches!(&o.viol, Some(v) if v.class == class && v.cause == cause)
-    };
-    let mut n = 0usize;
-    let mut chunk = cur.len() / 2;
-    while chunk >= 1 && n < 120 {
-        let mut i = 0;
-        while i < cur.len() && n < 120 {
-            let end = (i + chunk).min(cur.len());
-            if cur[i..end].iter().any(|s| matches!(s, Stmt::CreateTable(_))) {
-                i += chunk;
-                continue;
+fn refs_col(e: &E, name: &str) -> bool {
+    let mut f = false;
+    e.visit(&mut |x| {
+        if let E::Col { name: n, .. } = x {
+            f |= n.eq_ignore_ascii_case(name)
+        }
+    });
+    f
+}
+
+/// remove a column from a table and from every statement; None if some statement needs the column
+fn drop_col(stmts: &[Stmt], table: &str, cname: &str) -> Option<Vec<Stmt>> {
+    let mut out = vec![];
+    let mut idx_in_table = None;
+    for s in stmts {
+        let on_t = stmt_table(s).map(|t| t.eq_ignore_ascii_case(table)).unwrap_or(false);
+        match s {
+            Stmt::CreateTable(d) if on_t => {
+                let mut d = d.clone();
+                let ci = d.col_idx(cname)?;
+                if d.cols.len() <= 1 {
+                    return None;
+                }
+                idx_in_table = Some(ci);
+                d.cols.remove(ci);
+                d.pk.retain(|p| !p.eq_ignore_ascii_case(cname));
+                d.fks.retain(|f| !f.col.eq_ignore_ascii_case(cname));
+                if d.cols.iter().any(|c| c.check.as_ref().map(|e| refs_col(e, cname)).unwrap_or(false)) {
+                    return None;
+                }
+                out.push(Stmt::CreateTable(d));
             }
-            let mut cand = cur[..i].to_vec();
-            cand.extend_from_slice(&cur[end..]);
-            if fires(&cand, &mut n) {
-                cur = cand;
-            } else {
-                i += chunk;
+            Stmt::CreateTable(d) => {
+                if d.fks.iter().any(|f| f.ref_table.eq_ignore_ascii_case(table) && f.ref_col.eq_ignore_ascii_case(cname)) {
+                    return None;
+                }
+                out.push(s.clone());
+            }
+            Stmt::CreateIndex { cols, .. } if on_t => {
+                if !cols.iter().any(|c| c.eq_ignore_ascii_case(cname)) {
+                    out.push(s.clone());
+                }
+            }
+            Stmt::Insert { table: t, cols, rows, returning } if on_t => {
+                let pos = match cols {
+                    Some(c) => c.iter().position(|x| x.eq_ignore_ascii_case(cname)),
+                    None => idx_in_table,
+                };
+                let mut cols = cols.clone();
+                let mut rows = rows.clone();
+                if let Some(p) = pos {
+                    if let Some(c) = cols.as_mut() {
+                        c.remove(p);
+                        if c.is_empty() {
+                            return None;
+                        }
+                    }
+                    for r in rows.iter_mut() {
+                        if p < r.len() {
+                            r.remove(p);
+                        }
+                        if r.is_empty() {
+                            return None;
+                        }
+                    }
+                }
+                out.push(Stmt::Insert { table: t.clone(), cols, rows, returning: *returning });
+            }
+            Stmt::Update { table: t, sets, where_, returning } if on_t => {
+                if where_.as_ref().map(|w| refs_col(w, cname)).unwrap_or(false) {
+                    return None;
+                }
+                let sets: Vec<(String, E)> = sets.iter().filter(|(c, _)| !c.eq_ignore_ascii_case(cname)).cloned().collect();
+                if sets.iter().any(|(_, e)| refs_col(e, cname)) {
+                    return None;
+                }
+                if !sets.is_empty() {
+                    out.push(Stmt::Update { table: t.clone(), sets, where_: where_.clone(), returning: *returning });
+                }
+            }
+            Stmt::Delete { where_, .. } if on_t => {
+                if where_.as_ref().map(|w| refs_col(w, cname)).unwrap_or(false) {
+                    return None;
+                }
+                out.push(s.clone());
+            }
+            _ => out.push(s.clone()),
+        }
+    }
+    Some(out)
+}
+
+/// single-step simplifications of statement `j` (not touching other statements)
+fn stmt_variants(stmts: &[Stmt], j: usize) -> Vec<Stmt> {
+    let mut v = vec![];
+    match &stmts[j] {
+        Stmt::Insert { table, cols, rows, returning } => {
+            if rows.len() > 1 {
+                for r in 0..rows.len() {
+                    let mut rr = rows.clone();
+                    rr.remove(r);
+                    v.push(Stmt::Insert { table: table.clone(), cols: cols.clone(), rows: rr, returning: *returning });
+                }
+            }
+            if *returning {
+                v.push(Stmt::Insert { table: table.clone(), cols: cols.clone(), rows: rows.clone(), returning: false });
+            }
+            if let Some(c) = cols {
+                // same statement without a column list: omitted columns get their DEFAULT (or NULL) spelled out
+                if let Some(Stmt::CreateTable(d)) = stmts.iter().find(|s| matches!(s, Stmt::CreateTable(d) if d.name.eq_ignore_ascii_case(table))) {
+                    let full: Vec<Vec<E>> = rows
+                        .iter()
+                        .map(|r| d.cols.iter().map(|dc| match c.iter().position(|x| x.eq_ignore_ascii_case(&dc.name)) {
+                            Some(p) if p < r.len() => r[p].clone(),
+                            _ => E::Lit(dc.default.clone().unwrap_or(V::Null)),
+                        }).collect())
+                        .collect();
+                    v.push(Stmt::Insert { table: table.clone(), cols: None, rows: full, returning: *returning });
+                }
             }
         }
-        if chunk == 1 {
+        Stmt::Update { table, sets, where_, returning } => {
+            if sets.len() > 1 {
+                for r in 0..sets.len() {
+                    let mut ss = sets.clone();
+                    ss.remove(r);
+                    v.push(Stmt::Update { table: table.clone(), sets: ss, where_: where_.clone(), returning: *returning });
+                }
+            }
+            if where_.is_some() {
+                v.push(Stmt::Update { table: table.clone(), sets: sets.clone(), where_: None, returning: *returning });
+            }
+            if *returning {
+                v.push(Stmt::Update { table: table.clone(), sets: sets.clone(), where_: where_.clone(), returning: false });
+            }
+        }
+        Stmt::Delete { table, where_, returning } => {
+            if where_.is_some() {
+                v.push(Stmt::Delete { table: table.clone(), where_: None, returning: *returning });
+            }
+            if *returning {
+                v.push(Stmt::Delete { table: table.clone(), where_: where_.clone(), returning: false });
+            }
+        }
+        Stmt::CreateTable(d) => {
+            let mut push = |f: &dyn Fn(&mut TableDef) -> bool| {
+                let mut n = d.clone();
+                if f(&mut n) {
+                    v.push(Stmt::CreateTable(n));
+                }
+            };
+            push(&|n| {
+                let had = !n.pk.is_empty() && !n.cols.iter().any(|c| c.auto_inc);
+                n.pk.clear();
+                had
+            });
+            push(&|n| {
+                let had = !n.fks.is_empty();
+                n.fks.clear();
+                had
+            });
+            for ci in 0..d.cols.len() {
+                push(&|n| std::mem::take(&mut n.cols[ci].auto_inc));
+                push(&|n| n.cols[ci].default.take().is_some());
+                push(&|n| std::mem::take(&mut n.cols[ci].not_null));
+                push(&|n| std::mem::take(&mut n.cols[ci].unique));
+                push(&|n| n.cols[ci].check.take().is_some());
+            }
+        }
+        _ => {}
+    }
+    v
+}
+
+fn with_where(s: &Stmt, w: Option<E>) -> Stmt {
+    match s {
+        Stmt::Update { table, sets, returning, .. } => Stmt::Update { table: table.clone(), sets: sets.clone(), where_: w, returning: *returning },
+        Stmt::Delete { table, returning, .. } => Stmt::Delete { table: table.clone(), where_: w, returning: *returning },
+        other => other.clone(),
+    }
+}
+
+/// minimise a failing history (already cut at the failing statement): statement list, then inside
+/// statements, then the schema; every candidate is re-run on a fresh database and must show the same
+/// (class, assertion, core). Returns the minimal history, the violation as observed on it, and the runs used.
+pub fn minimize(scratch: &Scratch, tag: &str, stmts: &[Stmt], target: &Viol, budget: usize) -> (Vec<Stmt>, Viol, usize) {
+    let mut cur = stmts.to_vec();
+    let mut cur_v = target.clone();
+    let mut n = 0usize;
+    let try_ = |cand: &[Stmt], n: &mut usize| -> Option<Viol> {
+        if *n >= budget || cand.is_empty() {
+            return None;
+        }
+        *n += 1;
+        let o = run_history(scratch, tag, cand);
+        matches_target(&o, target)
+    };
+    for _round in 0..2 {
+        let before_len = (cur.len(), cur.iter().map(|s| s.sql().len()).sum::<usize>());
+        // A. statement list: schema + failing statement only, then ddmin
+        let last = cur.len() - 1;
+        let keep_fixed = |s: &Stmt| matches!(s, Stmt::CreateTable(_));
+        let cand: Vec<Stmt> = cur.iter().enumerate().filter(|(i, s)| *i == last || keep_fixed(s)).map(|(_, s)| s.clone()).collect();
+        if cand.len() < cur.len() {
+            if let Some(v) = try_(&cand, &mut n) {
+                cur = cand;
+                cur_v = v;
+            }
+        }
+        let mut chunk = (cur.len() / 2).max(1);
+        loop {
+            let mut i = 0;
+            while i + 1 < cur.len() && n < budget {
+                let end = (i + chunk).min(cur.len() - 1);
+                let cand: Vec<Stmt> = cur.iter().enumerate().filter(|(j, s)| *j < i || *j >= end || keep_fixed(s)).map(|(_, s)| s.clone()).collect();
+                if cand.len() == cur.len() {
+                    i += chunk;
+                    continue;
+                }
+                if let Some(v) = try_(&cand, &mut n) {
+                    cur = cand;
+                    cur_v = v;
+                } else {
+                    i += chunk;
+                }
+            }
+            if chunk == 1 || n >= budget {
+                break;
+            }
+            chunk /= 2;
+        }
+        // B. tables nobody uses any more
+        let names: Vec<String> = cur.iter().filter_map(|s| if let Stmt::CreateTable(d) = s { Some(d.name.clone()) } else { None }).collect();
+        for t in names {
+            let used = cur.iter().any(|s| match s {
+                Stmt::CreateTable(d) => !d.name.eq_ignore_ascii_case(&t) && d.fks.iter().any(|f| f.ref_table.eq_ignore_ascii_case(&t)),
+                other => stmt_table(other).map(|x| x.eq_ignore_ascii_case(&t)).unwrap_or(false),
+            });
+            if !used {
+                let cand: Vec<Stmt> = cur.iter().filter(|s| !matches!(s, Stmt::CreateTable(d) if d.name.eq_ignore_ascii_case(&t))).cloned().collect();
+                if let Some(v) = try_(&cand, &mut n) {
+                    cur = cand;
+                    cur_v = v;
+                }
+            }
+        }
+        // C. inside statements (failing statement first), D. schema attributes
+        let mut j = cur.len();
+        while j > 0 && n < budget {
+            j -= 1;
+            let mut progress = true;
+            while progress && n < budget {
+                progress = false;
+                for var in stmt_variants(&cur, j) {
+                    let mut cand = cur.clone();
+                    cand[j] = var;
+                    if let Some(v) = try_(&cand, &mut n) {
+                        cur = cand;
+                        cur_v = v;
+                        progress = true;
+                        break;
+                    }
+                }
+            }
+            // WHERE expression
+            let w = match &cur[j] {
+                Stmt::Update { where_: Some(w), .. } | Stmt::Delete { where_: Some(w), .. } => Some(w.clone()),
+                _ => None,
+            };
+            if let Some(w) = w {
+                let base = cur.clone();
+                let mut best_v = None;
+                let small = shrink_expr(
+                    &w,
+                    &mut |e: &E| {
+                        let mut cand = base.clone();
+                        cand[j] = with_where(&base[j], Some(e.clone()));
+                        match try_(&cand, &mut n) {
+                            Some(v) => {
+                                best_v = Some(v);
+                                true
+                            }
+                            None => false,
+                        }
+                    },
+                    12,
+                );
+                if let Some(v) = best_v {
+                    cur[j] = with_where(&base[j], Some(small));
+                    cur_v = v;
+                }
+            }
+        }
+        // columns
+        let tables: Vec<TableDef> = cur.iter().filter_map(|s| if let Stmt::CreateTable(d) = s { Some(d.clone()) } else { None }).collect();
+        for d in tables {
+            for c in d.cols.iter().rev() {
+                if n >= budget {
+                    break;
+                }
+                if let Some(cand) = drop_col(&cur, &d.name, &c.name) {
+                    if let Some(v) = try_(&cand, &mut n) {
+                        cur = cand;
+                        cur_v = v;
+                    }
+                }
+            }
+        }
+        let after_len = (cur.len(), cur.iter().map(|s| s.sql().len()).sum::<usize>());
+        if after_len == before_len || n >= budget {
             break;
         }
-        chunk /= 2;
     }
-    cur
+    cur_v.stmt_index = cur_v.stmt_index.min(cur.len().saturating_sub(1));
+    (cur, cur_v, n)
 }
+
+/// legacy entry point: ddmin over the statement list only; same class + cause must still fire
+pub fn shrink(scratch: &Scratch, stmts: &[Stmt], class: &str, cause: &str) -> Vec<Stmt> {
+    let o = run_history(scratch, "shrink0", stmts);
+    let t = match o.viol.iter().chain(o.extra.iter()).find(|v| v.class == class && v.cause == cause) {
+        Some(t) => t.clone(),
+        None => return stmts.to_vec(),
+    };
+    minimize(scratch, "shrink1", &stmts[..(t.stmt_index + 1).min(stmts.len())], &t, 120).0
+}
+
+/// features that survived minimisation (see module doc)
+pub fn traits_of(stmts: &[Stmt], v: &Viol) -> Vec<String> {
+    let mut t: BTreeSet<String> = BTreeSet::new();
+    if stmts.is_empty() {
+        return vec![];
+    }
+    let fi = v.stmt_index.min(stmts.len() - 1);
+    let fail = &stmts[fi];
+    let mut model = MDb::default();
+    for s in &stmts[..fi] {
+        let _ = model.apply(s);
+        match s {
+            Stmt::Delete { .. } => {
+                t.insert("after_delete".into());
+            }
+            Stmt::Update { .. } => {
+                t.insert("after_update".into());
+            }
+            Stmt::Truncate(_) => {
+                t.insert("after_truncate".into());
+            }
+            Stmt::Rollback => {
+                t.insert("after_rollback".into());
+            }
+            Stmt::RollbackTo(_) => {
+                t.insert("after_rollback_to".into());
+            }
+            Stmt::Commit => {
+                t.insert("after_commit".into());
+            }
+            _ => {}
+        }
+    }
+    if model.in_txn() {
+        t.insert("in_txn".into());
+    }
+    let mut large = false;
+    for s in stmts {
+        let mut see = |e: &E| e.visit(&mut |x| if let E::Lit(v) = x { large |= matches!(v, V::Text(s) if s.len() > 1000) });
+        match s {
+            Stmt::Insert { rows, .. } => rows.iter().flatten().for_each(|e| see(e)),
+            Stmt::Update { sets, .. } => sets.iter().for_each(|(_, e)| see(e)),
+            _ => {}
+        }
+    }
+    if large {
+        t.insert("toast".into());
+    }
+    let tk = stmt_table(fail).map(|x| x.to_lowercase()).unwrap_or_default();
+    if let Some((def, _)) = model.st.tables.get(&tk) {
+        if !def.pk.is_empty() {
+            t.insert("pk".into());
+        }
+        for c in &def.cols {
+            if c.auto_inc {
+                t.insert("autoinc".into());
+            }
+            if let Some(d) = &c.default {
+                t.insert(if neg_num(d) { "neg_default".into() } else { "default".into() });
+            }
+            if c.not_null {
+                t.insert("not_null".into());
+            }
+            if c.unique {
+                t.insert("unique".into());
+            }
+            if let Some(ch) = &c.check {
+                t.insert(format!("check:{}", check_form(ch)));
+            }
+        }
+        for f in &def.fks {
+            t.insert(format!("fk_child:{}", if f.on_delete == FkAction::Cascade { "cascade" } else { "restrict" }));
+        }
+        for (_, (cd, _)) in &model.st.tables {
+            for f in &cd.fks {
+                if f.ref_table.eq_ignore_ascii_case(&def.name) && !cd.name.eq_ignore_ascii_case(&def.name) {
+                    t.insert(format!("fk_parent:{}", if f.on_delete == FkAction::Cascade { "cascade" } else { "restrict" }));
+                }
+            }
+        }
+        for (_, cols, unique) in &def.indexes {
+            t.insert(if *unique { "unique_index".into() } else if cols.len() > 1 { "composite_index".into() } else { "index".into() });
+        }
+    }
+    let where_trait = |w: &Option<E>, t: &mut BTreeSet<String>| {
+        if let Some(w) = w {
+            let pk_point = matches!(w, E::Bin(BinOp::Eq, a, b) if matches!(**a, E::Col { ref name, .. } if name == "id") && matches!(**b, E::Lit(_)));
+            if pk_point {
+                t.insert("where:pk_point".into());
+            } else {
+                let mut f = BTreeSet::new();
+                w.features(&mut f);
+                t.insert(format!("where:{}", f.into_iter().collect::<Vec<_>>().join(",")));
+            }
+        }
+    };
+    match fail {
+        Stmt::Insert { cols, rows, returning, .. } => {
+            if rows.len() > 1 {
+                if let Some((k, n)) = model.first_failing_row(fail) {
+                    t.insert(format!("k={}", if k == 0 { "first" } else if k + 1 == n { "last" } else { "middle" }));
+                } else {
+                    t.insert("multi_row".into());
+                }
+            }
+            if cols.is_some() {
+                t.insert("col_list".into());
+            }
+            if *returning {
+                t.insert("returning".into());
+            }
+        }
+        Stmt::Update { sets, where_, returning, .. } => {
+            where_trait(where_, &mut t);
+            if sets.len() > 1 {
+                t.insert("multi_set".into());
+            }
+            if sets.iter().any(|(c, _)| c == "id") {
+                t.insert("set_pk".into());
+            }
+            if sets.iter().any(|(_, e)| !matches!(e, E::Lit(_))) {
+                t.insert("set_expr".into());
+            }
+            if *returning {
+                t.insert("returning".into());
+            }
+        }
+        Stmt::Delete { where_, returning, .. } => {
+            where_trait(where_, &mut t);
+            if *returning {
+                t.insert("returning".into());
+            }
+        }
+        _ => {}
+    }
+    t.into_iter().collect()
+}
+
+// ---------------------------------------------------------------- driver
 
 pub fn classes_of(prop: &str) -> &'static [&'static str] {
     match prop {
@@ -455,35 +1852,155 @@ pub fn classes_of(prop: &str) -> &'static [&'static str] {
     }
 }
 
+struct Case {
+    i: usize,
+    stmts: Vec<Stmt>,
+    out: RunOut,
+}
+
+/// one violation of this property's classes, before / after minimisation
+struct Item {
+    case: usize,
+    v: Viol,
+    cut: Vec<Stmt>,
+    /// grouping key for the minimisation order: core + statement-level traits of the unminimised failing statement
+    group: String,
+    /// (minimal history, violation on it, runs)
+    min: Option<(Vec<Stmt>, Viol, usize)>,
+}
+
+/// statement-level traits only (cheap, no minimisation needed): used to group violations
+fn stmt_traits(cut: &[Stmt], v: &Viol) -> String {
+    traits_of(cut, v).into_iter().filter(|t| t.starts_with("where:") || t.starts_with("k=") || matches!(t.as_str(), "returning" | "multi_set" | "set_expr" | "set_pk" | "col_list" | "multi_row" | "in_txn" | "toast")).collect::<Vec<_>>().join("+")
+}
+
 pub fn run_prop(a: &Args, prop: &'static str, focus: Focus, rule: &str) -> i32 {
     let mut ctx = Ctx::new(prop, &a.tier, a.seed, "exploration", rule);
     let quick = ctx.quick();
-    let nhist = if quick { 300 } else { 6000 };
-    let threads = 8usize;
+    let miri = cfg!(miri);
+    let nhist = if miri {
+        4
+    } else if quick {
+        400
+    } else {
+        6000
+    };
+    let max_stmts = if miri { 8 } else { 40 };
+    let budget = if quick { 90 } else { 130 };
+    // wall budgets (s): histories stop being started after `run_deadline`; minimisation stops at `min_deadline`
+    let (run_deadline, min_deadline) = if quick { (22.0, 42.0) } else { (240.0, 520.0) };
+    let threads = if miri { 1 } else { 8usize };
     let scratch = Scratch::new(&format!("{}-dml", prop.to_lowercase()));
     let results = std::sync::Mutex::new(vec![]);
     let next = std::sync::atomic::AtomicUsize::new(0);
     let seed = a.seed;
+    let mine = classes_of(prop);
+    let start = std::time::Instant::now();
+    // phase 1: run the histories
     std::thread::scope(|s| {
         for t in 0..threads {
             let (results, next, scratch) = (&results, &next, &scratch);
             s.spawn(move || loop {
                 let i = next.fetch_add(1, std::sync::atomic::Ordering::SeqCst);
-                if i >= nhist {
+                if i >= nhist || start.elapsed().as_secs_f64() > run_deadline {
                     break;
                 }
                 let hseed = Rng::derive(seed, 50_000 + i as u64 + (prop.as_bytes()[2] as u64) * 1_000_000).next();
-                let stmts = gen_history(hseed, focus, 40);
+                let stmts = gen_history(hseed, focus, max_stmts);
                 let out = run_history(scratch, &format!("w{}", t), &stmts);
-                results.lock().unwrap().push((i, stmts, out));
+                results.lock().unwrap().push(Case { i, stmts, out });
             });
         }
     });
     let mut results = results.into_inner().unwrap();
-    results.sort_by_key(|r| r.0);
-    let mine = classes_of(prop);
-    let mut seen_sigs = BTreeSet::new();
-    for (i, stmts, out) in results {
+    results.sort_by_key(|r| r.i);
+    if results.len() < nhist {
+        ctx.count("histories_not_started_wall_budget", (nhist - results.len()) as u64);
+    }
+    ctx.count("wall_ms_phase_run", (start.elapsed().as_secs_f64() * 1000.0) as u64);
+    // phase 2: minimise this property's violations; one per group first (round robin), then the rest while time remains
+    let mut items: Vec<Item> = vec![];
+    for (ci, case) in results.iter().enumerate() {
+        for v in case.out.viol.iter().chain(case.out.extra.iter()).filter(|v| mine.contains(&v.class)) {
+            let cut = case.stmts[..(v.stmt_index + 1).min(case.stmts.len())].to_vec();
+            let group = format!("{}/{}/{}", v.assertion, v.core, stmt_traits(&cut, v));
+            items.push(Item { case: ci, v: v.clone(), cut, group, min: None });
+        }
+    }
+    let mut rank: BTreeMap<String, usize> = BTreeMap::new();
+    let mut order: Vec<(usize, usize)> = items.iter().enumerate().map(|(k, it)| {
+        let r = rank.entry(it.group.clone()).or_insert(0);
+        *r += 1;
+        (*r, k)
+    }).collect();
+    order.sort();
+    // waves: (1) the first 3 of every group; (2) members 4..=8 of groups whose minimised members disagree;
+    // (3) the rest of the groups that still disagree. Members of agreeing groups inherit the group's signature.
+    let sig_of = |it: &Item, small: &[Stmt], sv: &Viol| -> String {
+        let traits = traits_of(small, sv);
+        if traits.is_empty() { format!("{}/{}/{}", prop, it.v.assertion, it.v.core) } else { format!("{}/{}/{}/{}", prop, it.v.assertion, it.v.core, traits.join("+")) }
+    };
+    for wave in 0..3 {
+        let mut group_sigs: BTreeMap<String, BTreeSet<String>> = BTreeMap::new();
+        for it in &items {
+            if let Some((small, sv, _)) = &it.min {
+                group_sigs.entry(it.group.clone()).or_default().insert(sig_of(it, small, sv));
+            }
+        }
+        let (lo, hi) = match wave {
+            0 => (1, 3),
+            1 => (4, 8),
+            _ => (9, usize::MAX),
+        };
+        let todo: Vec<usize> = order.iter().filter(|(r, k)| *r >= lo && *r <= hi && items[*k].min.is_none() && items[*k].v.class != "setup" && (wave == 0 || group_sigs.get(&items[*k].group).map(|g| g.len() != 1).unwrap_or(true))).map(|(_, k)| *k).collect();
+        if todo.is_empty() {
+            continue;
+        }
+        let queue = std::sync::atomic::AtomicUsize::new(0);
+        let done: std::sync::Mutex<Vec<(usize, (Vec<Stmt>, Viol, usize))>> = std::sync::Mutex::new(vec![]);
+        std::thread::scope(|s| {
+            for t in 0..threads {
+                let (queue, todo, items, done, scratch) = (&queue, &todo, &items, &done, &scratch);
+                s.spawn(move || loop {
+                    let q = queue.fetch_add(1, std::sync::atomic::Ordering::SeqCst);
+                    if q >= todo.len() || start.elapsed().as_secs_f64() > min_deadline {
+                        break;
+                    }
+                    let k = todo[q];
+                    let it = &items[k];
+                    let r = minimize(scratch, &format!("m{}", t), &it.cut, &it.v, budget);
+                    done.lock().unwrap().push((k, r));
+                });
+            }
+        });
+        for (k, r) in done.into_inner().unwrap() {
+            items[k].min = Some(r);
+        }
+    }
+    // signatures: minimised cases sign themselves; the others inherit the signature of their group if every
+    // minimised member of the group agrees, else they are signed `<core>/unminimised`
+    ctx.count("wall_ms_phase_run_and_minimise", (start.elapsed().as_secs_f64() * 1000.0) as u64);
+    let mut group_sigs: BTreeMap<String, BTreeSet<String>> = BTreeMap::new();
+    for it in &items {
+        if let Some((small, sv, _)) = &it.min {
+            group_sigs.entry(it.group.clone()).or_default().insert(sig_of(it, small, sv));
+        }
+    }
+    let mut by_case: BTreeMap<usize, Vec<usize>> = BTreeMap::new();
+    for (k, it) in items.iter().enumerate() {
+        by_case.entry(it.case).or_default().push(k);
+    }
+    let mut examples: serde_json::Map<String, J> = serde_json::Map::new();
+    let short_sql = |s: &Stmt| {
+        let q = s.sql();
+        if q.len() > 600 {
+            format!("{}..[{} bytes]", &q[..300], q.len())
+        } else {
+            q
+        }
+    };
+    for (ci, case) in results.iter().enumerate() {
+        let (i, stmts, out) = (case.i, &case.stmts, &case.out);
         ctx.eval();
         ctx.count("statements_executed", out.executed as u64);
         ctx.count("failing_statements_both_reject", out.failing_stmts);
@@ -493,6 +2010,9 @@ pub fn run_prop(a: &Args, prop: &'static str, focus: Focus, rule: &str) -> i32 {
         }
         for (k, n) in &out.kinds {
             ctx.count(&format!("stmt_{}", k), *n);
+        }
+        for (k, n) in &out.cov {
+            ctx.count(&format!("cov_{}", k), *n);
         }
         // non-trivial: the history exercised the property's mechanism
         let nontrivial = match focus {
@@ -504,21 +2024,45 @@ pub fn run_prop(a: &Args, prop: &'static str, focus: Focus, rule: &str) -> i32 {
             ctx.nontrivial(fnv(stmts.iter().map(|s| s.sql()).collect::<Vec<_>>().join(";").as_bytes()));
         }
         if i < 2 {
-            ctx.sample(json!({"history": i, "statements": stmts.iter().take(14).map(|s| s.sql()).collect::<Vec<_>>()}));
+            ctx.sample(json!({"history": i, "statements": stmts.iter().take(14).map(|s| s.sql().chars().take(300).collect::<String>()).collect::<Vec<_>>()}));
         }
-        if let Some(v) = out.viol {
+        for v in out.viol.iter().chain(out.extra.iter()) {
             if !mine.contains(&v.class) {
                 ctx.count(&format!("other_property_class_{}", v.class), 1);
-                continue;
             }
-            let sig = format!("{}/{}/{}", prop, v.assertion, v.cause);
-            let mut shrunk: Vec<String> = vec![];
-            if ctx.is_known(&sig).is_none() && seen_sigs.insert(sig.clone()) {
-                shrunk = shrink(&scratch, &stmts[..(v.stmt_index + 1).min(stmts.len())], v.class, &v.cause).iter().map(|s| s.sql()).collect();
+        }
+        if out.viol.is_none() {
+            ctx.count("histories_completed_without_violation", 1);
+        }
+        for k in by_case.get(&ci).cloned().unwrap_or_default() {
+            let it = &items[k];
+            let (sig, small, sv, runs) = match &it.min {
+                Some((small, sv, runs)) => {
+                    ctx.count("minimisation_runs", *runs as u64);
+                    ctx.count("violations_minimised", 1);
+                    (sig_of(it, small, sv), small.clone(), sv.clone(), *runs)
+                }
+                None => {
+                    let inherited = group_sigs.get(&it.group).filter(|g| g.len() == 1).and_then(|g| g.iter().next().cloned());
+                    match inherited {
+                        Some(sg) => {
+                            ctx.count("violations_signed_like_their_minimised_group", 1);
+                            (sg, it.cut.clone(), it.v.clone(), 0)
+                        }
+                        None => {
+                            ctx.count("violations_signed_unminimised", 1);
+                            (format!("{}/{}/{}/unminimised", prop, it.v.assertion, it.v.core), it.cut.clone(), it.v.clone(), 0)
+                        }
+                    }
+                }
+            };
+            if examples.len() < 80 && !examples.contains_key(&sig) {
+                examples.insert(sig.clone(), json!({"history": i, "minimal_history": small.iter().map(short_sql).collect::<Vec<_>>(), "detail": sv.detail}));
             }
-            ctx.violation(&v.assertion, &sig, json!({"history": i, "stmt_index": v.stmt_index, "detail": v.detail, "shrunk_history": shrunk, "full_history": if shrunk.is_empty() { stmts.iter().take(v.stmt_index + 1).map(|s| s.sql()).collect::<Vec<_>>() } else { vec![] }}));
+            ctx.violation(&it.v.assertion, &sig, json!({"history": i, "stmt_index": it.v.stmt_index, "detail": sv.detail, "first_seen_detail": it.v.detail, "minimal_history": small.iter().map(short_sql).collect::<Vec<_>>(), "minimisation_runs": runs}));
         }
     }
-    ctx.assumptions.push("model pins: rows_affected of UPDATE/DELETE = rows matched by WHERE; TRUNCATE count not asserted; UNIQUE admits several NULLs; CHECK passes unless FALSE; AUTO_INCREMENT counters need not roll back".into());
+    ctx.extra.insert("signature_examples".into(), J::Object(examples));
+    ctx.assumptions.push("model pins: rows_affected of UPDATE/DELETE = rows matched by WHERE; TRUNCATE count not asserted; UNIQUE admits several NULLs; CHECK passes unless FALSE; TurDB dialect: an explicit NULL written by INSERT into a column with a DEFAULT stores the default (pinned by TurDB's own suite), so NOT NULL DEFAULT columns accept NULL and CHECK/FK see the default; SET expressions read the row as it was before the statement; constraints are judged on the state after the whole statement; AUTO_INCREMENT values after a rollback or failed INSERT are not judged (history cut)".into());
     ctx.finish()
 }
